@@ -1,13 +1,1636 @@
-(* Proofs for C04 (round trip, cross protocol) and C08 (prefix / trailing classification) of the thrift model. *)
+(* Proofs for C04 (round trip, cross protocol) and C08 (prefix / trailing classification) of the thrift model.
+
+   Architecture: every reader R is specified against the bytes w its writer produces by a three-way
+   specification (rspec): on firstn j (w ++ rest) the reader fails with io.EOF (j = 0) / ErrUnexpectedEOF
+   (0 < j < |w|) when the cut falls inside w, and otherwise returns the value and the rest.  The main
+   theorem main_all proves rspec for dec against enc for every type of the universe, with the decoded
+   value given as a function (dval); dval_norm shows it equals the original up to tnorm.  The four
+   statements are corollaries (rest = [] / proper prefix / non-empty rest). *)
 From Verif Require Import Base.GoInt Thrift.Model Thrift.Spec.
 From Coq Require Import ZifyBool.
 Open Scope Z_scope.
 
+(* ====================================================================== *)
+Local Ltac dmlia := Z.div_mod_to_equations; lia.
+
+(* ---------- three-way reader specification ---------- *)
+Definition eofc (k : nat) : terr := if (k =? 0)%nat then EEOF else EUnexpectedEOF.
+Definition res3 {A} (j n : nat) (a : A) (rest : bytes) : tres (A * bytes) :=
+  if (j <? n)%nat then TErr (eofc j) else TOk (a, firstn (j - n) rest).
+Definition rspec {A} (R : bytes -> tres (A * bytes)) (w : bytes) (a : A) : Prop :=
+  forall j rest, R (firstn j (w ++ rest)) = res3 j (length w) a rest.
+
+Lemma firstn_app_lt {A} (j : nat) (w rest : list A) : (j < length w)%nat -> firstn j (w ++ rest) = firstn j w.
+Proof.
+  intros H. rewrite firstn_app. replace (j - length w)%nat with O by lia. simpl. apply app_nil_r.
+Qed.
+Lemma firstn_app_ge {A} (j : nat) (w rest : list A) : (length w <= j)%nat -> firstn j (w ++ rest) = w ++ firstn (j - length w) rest.
+Proof.
+  intros H. rewrite firstn_app. rewrite firstn_all2 by lia. reflexivity.
+Qed.
+
+Lemma rspec_intro {A} (R : bytes -> tres (A * bytes)) w a :
+  (forall rest, R (w ++ rest) = TOk (a, rest)) ->
+  (forall j, (j < length w)%nat -> R (firstn j w) = TErr (eofc j)) -> rspec R w a.
+Proof.
+  intros HA HB j rest. unfold res3. destruct (Nat.ltb_spec j (length w)).
+  - rewrite firstn_app_lt by lia. auto.
+  - rewrite firstn_app_ge by lia. auto.
+Qed.
+Lemma rspec_full {A} (R : bytes -> tres (A * bytes)) w a rest : rspec R w a -> R (w ++ rest) = TOk (a, rest).
+Proof.
+  intros H. specialize (H (length w + length rest)%nat rest). unfold res3 in H.
+  rewrite firstn_all2 in H by (rewrite app_length; lia).
+  replace (length w + length rest <? length w)%nat with false in H by (symmetry; apply Nat.ltb_ge; lia).
+  rewrite firstn_all2 in H by lia. exact H.
+Qed.
+Lemma rspec_prefix {A} (R : bytes -> tres (A * bytes)) w a j : rspec R w a -> (j < length w)%nat -> R (firstn j w) = TErr (eofc j).
+Proof.
+  intros H Hj. specialize (H j []). unfold res3 in H. rewrite app_nil_r in H.
+  replace (j <? length w)%nat with true in H by (symmetry; apply Nat.ltb_lt; lia). exact H.
+Qed.
+
+Lemma res3_lt {A} j n (a : A) rest : (j < n)%nat -> res3 j n a rest = TErr (eofc j).
+Proof. intros. unfold res3. replace (j <? n)%nat with true by (symmetry; apply Nat.ltb_lt; lia). reflexivity. Qed.
+Lemma res3_ge {A} j n (a : A) rest : (n <= j)%nat -> res3 j n a rest = TOk (a, firstn (j - n) rest).
+Proof. intros. unfold res3. replace (j <? n)%nat with false by (symmetry; apply Nat.ltb_ge; lia). reflexivity. Qed.
+Lemma eofc_pos j : (0 < j)%nat -> eofc j = EUnexpectedEOF.
+Proof. intros. unfold eofc. destruct j; [lia | reflexivity]. Qed.
+Lemma dee_eofc {A} j : @dont_expect_eof A (TErr (eofc j)) = TErr EUnexpectedEOF.
+Proof. unfold eofc. destruct (j =? 0)%nat; reflexivity. Qed.
+
+(* ---------- r_byte, r_full ---------- *)
+Lemma r_byte_spec x : rspec r_byte [x] x.
+Proof.
+  apply rspec_intro.
+  - reflexivity.
+  - intros j Hj. simpl in Hj. replace j with O by lia. reflexivity.
+Qed.
+
+Lemma r_full_spec n w : length w = n -> n <> O -> rspec (r_full n) w w.
+Proof.
+  intros Hl Hn. apply rspec_intro.
+  - intros rest. unfold r_full. replace (n =? 0)%nat with false by (symmetry; apply Nat.eqb_neq; lia).
+    destruct (w ++ rest) eqn:E.
+    + destruct w; simpl in *; [lia | discriminate].
+    + rewrite <- E. replace (length (w ++ rest) <? n)%nat with false by (symmetry; apply Nat.ltb_ge; rewrite app_length; lia).
+      rewrite <- Hl. rewrite firstn_app, Nat.sub_diag, firstn_all. simpl. rewrite app_nil_r.
+      rewrite skipn_app, Nat.sub_diag, skipn_all. reflexivity.
+  - intros j Hj. unfold r_full. replace (n =? 0)%nat with false by (symmetry; apply Nat.eqb_neq; lia).
+    destruct (firstn j w) eqn:E.
+    + assert (length (firstn j w) = j) by (apply firstn_length_le; lia). rewrite E in H. simpl in H. subst j. reflexivity.
+    + rewrite <- E. assert (length (firstn j w) = j) by (apply firstn_length_le; lia). rewrite H.
+      replace (j <? n)%nat with true by (symmetry; apply Nat.ltb_lt; lia).
+      rewrite eofc_pos; [reflexivity|]. rewrite E in H. simpl in H. lia.
+Qed.
+
+Lemma be_bytes_length n v : length (be_bytes n v) = n.
+Proof. induction n; simpl; auto. Qed.
+
+Lemma be_val_eq b : be_val b = fold_left (fun acc x => acc * 256 + x) b 0.
+Proof. destruct b; reflexivity. Qed.
+
+Lemma be_fold n : forall v acc, fold_left (fun acc x => acc * 256 + x) (be_bytes n v) acc = acc * 256 ^ Z.of_nat n + v mod 256 ^ Z.of_nat n.
+Proof.
+  induction n; intros v acc.
+  - simpl. rewrite Z.mod_1_r. lia.
+  - cbn [be_bytes fold_left]. rewrite IHn.
+    rewrite Nat2Z.inj_succ, Z.pow_succ_r by lia.
+    assert (0 < 256 ^ Z.of_nat n) by (apply Z.pow_pos_nonneg; lia).
+    rewrite (Z.mul_comm 256 (256 ^ Z.of_nat n)).
+    rewrite (Z.rem_mul_r v (256 ^ Z.of_nat n) 256) by lia. lia.
+Qed.
+Lemma be_val_be_bytes n v : be_val (be_bytes n v) = v mod 256 ^ Z.of_nat n.
+Proof. rewrite be_val_eq, be_fold. lia. Qed.
+
+(* ---------- zigzag ---------- *)
+Lemma unzz_zz64 v : unzz (zz64 v) = v.
+Proof.
+  unfold unzz, zz64. destruct (0 <=? v) eqn:E.
+  - rewrite Z.even_mul. change (Z.even 2) with true. cbn [orb]. rewrite Z.mul_comm, Z.div_mul by lia. reflexivity.
+  - replace (-2 * v - 1) with (1 + 2 * (- v - 1)) by lia. rewrite Z.even_add_mul_2. change (Z.even 1) with false. cbv iota.
+    replace (1 + 2 * (- v - 1) + 1) with ((- v) * 2) by lia. rewrite Z.div_mul by lia. lia.
+Qed.
+Lemma zz64_range v : - 2 ^ 63 <= v < 2 ^ 63 -> 0 <= zz64 v < 2 ^ 64.
+Proof. unfold zz64. intros. destruct (0 <=? v) eqn:E; lia. Qed.
+
+(* ---------- uvarint ---------- *)
+Lemma lor_disjoint x c s : 0 <= s -> 0 <= x < 2 ^ s -> 0 <= c -> Z.lor x (c * 2 ^ s) = x + c * 2 ^ s.
+Proof.
+  intros Hs Hx Hc.
+  assert (Z.land x (c * 2 ^ s) = 0).
+  { apply Z.bits_inj'. intros n Hn. rewrite Z.land_spec, Z.bits_0.
+    rewrite <- Z.shiftl_mul_pow2 by lia.
+    destruct (Z.lt_ge_cases n s).
+    - rewrite Z.shiftl_spec_low by lia. apply andb_false_r.
+    - replace x with (x mod 2 ^ s) by (apply Z.mod_small; lia).
+      rewrite Z.mod_pow2_bits_high by lia. reflexivity. }
+  rewrite <- Z.lxor_lor by assumption. symmetry. apply Z.add_nocarry_lxor. assumption.
+Qed.
+
+Lemma land127 c : 0 <= c -> Z.land c 127 = c mod 128.
+Proof. intros. change 127 with (Z.ones 7). rewrite Z.land_ones by lia. reflexivity. Qed.
+
+Lemma uvarint_fuel_length n u : (1 <= n)%nat -> (1 <= length (uvarint_fuel n u) <= n)%nat.
+Proof.
+  revert u. induction n; intros u Hn; [lia|].
+  simpl. destruct (u <? 128); simpl; [lia|].
+  destruct n; simpl; [lia|]. specialize (IHn (u / 128)). simpl in IHn. lia.
+Qed.
+
+Lemma uvarint_loop_ok n : forall i x s u rest,
+  (1 <= n)%nat -> i + Z.of_nat n = 10 -> s = 7 * i -> 0 <= i -> 0 <= x < 2 ^ s -> 0 <= u -> x + u * 2 ^ s < 2 ^ 64 ->
+  r_uvarint_loop n i x s (uvarint_fuel n u ++ rest) = TOk (x + u * 2 ^ s, rest).
+Proof.
+  induction n; intros i x s u rest Hn Hi Hs Hi0 Hx Hu Hb; [lia|].
+  assert (Hp : 0 < 2 ^ s) by (apply Z.pow_pos_nonneg; lia).
+  cbn [uvarint_fuel]. destruct (u <? 128) eqn:E.
+  - cbn [app r_uvarint_loop]. rewrite E.
+    replace ((i =? 9) && (u >? 1)) with false.
+    + rewrite Z.shiftl_mul_pow2 by lia. unfold w64. rewrite Z.mod_small by nia.
+      rewrite lor_disjoint by lia. reflexivity.
+    + symmetry. apply andb_false_iff. destruct (Z.eqb_spec i 9); [right | left; reflexivity].
+      subst i s. change (2 ^ (7 * 9)) with (2 ^ 63) in *. change (2 ^ 64) with (2 * 2 ^ 63) in Hb. 
+      rewrite Z.gtb_ltb. apply Z.ltb_ge. nia.
+  - cbn [app r_uvarint_loop].
+    replace (u mod 128 + 128 <? 128) with false by (symmetry; apply Z.ltb_ge; dmlia).
+    rewrite land127 by dmlia.
+    replace ((u mod 128 + 128) mod 128) with (u mod 128) by dmlia.
+    rewrite Z.shiftl_mul_pow2 by lia.
+    assert (Hs7 : 2 ^ (s + 7) = 128 * 2 ^ s) by (rewrite Z.pow_add_r by lia; lia).
+    assert (Hu128 : 128 <= u) by lia.
+    assert (Hlt : s + 7 < 64).
+    { destruct (Z.lt_ge_cases (s + 7) 64); auto. exfalso.
+      assert (2 ^ 64 <= 2 ^ (s + 7)) by (apply Z.pow_le_mono_r; lia). nia. }
+    unfold w64. rewrite Z.mod_small.
+    2:{ split; [dmlia|]. assert (u mod 128 < 128) by dmlia. nia. }
+    rewrite lor_disjoint by (try lia; dmlia).
+    rewrite IHn.
+    + f_equal. f_equal. rewrite Hs7. dmlia.
+    + destruct n; [lia | lia].
+    + lia.
+    + lia.
+    + lia.
+    + rewrite Hs7. split; [dmlia|]. assert (u mod 128 < 128) by dmlia. nia.
+    + dmlia.
+    + rewrite Hs7. assert (u = 128 * (u / 128) + u mod 128) by dmlia. nia.
+Qed.
+
+Lemma uvarint_loop_prefix n : forall i x s u k, 0 <= i -> 0 <= u ->
+  (k < length (uvarint_fuel n u))%nat ->
+  r_uvarint_loop n i x s (firstn k (uvarint_fuel n u)) = TErr (if (i =? 0) && (k =? 0)%nat then EEOF else EUnexpectedEOF).
+Proof.
+  induction n; intros i x s u k Hi Hu Hk; [simpl in Hk; lia|].
+  cbn [uvarint_fuel] in *. destruct (u <? 128) eqn:E.
+  - simpl in Hk. replace k with O by lia. simpl. rewrite andb_true_r. reflexivity.
+  - destruct k.
+    + simpl. rewrite andb_true_r. reflexivity.
+    + cbn [firstn r_uvarint_loop].
+      replace (u mod 128 + 128 <? 128) with false by (symmetry; apply Z.ltb_ge; dmlia).
+      simpl in Hk. rewrite IHn by (try lia; dmlia).
+      replace (i + 1 =? 0) with false by lia. cbn [andb Nat.eqb]. rewrite andb_false_r. reflexivity.
+Qed.
+
+Lemma uvarint_length u : (1 <= length (uvarint u) <= 10)%nat.
+Proof. unfold uvarint. apply uvarint_fuel_length. lia. Qed.
+
+Lemma uvarint_loop_spec u : 0 <= u < 2 ^ 64 -> rspec (r_uvarint_loop 10 0 0 0) (uvarint u) u.
+Proof.
+  intros Hu. apply rspec_intro.
+  - intros rest. unfold uvarint. unfold w64. rewrite Z.mod_small by lia.
+    rewrite uvarint_loop_ok; try lia. f_equal. f_equal. simpl. lia.
+  - intros j Hj. unfold uvarint in *. rewrite uvarint_loop_prefix; try lia.
+    + unfold eofc. reflexivity.
+    + unfold w64. dmlia.
+Qed.
+
+(* ====================================================================== *)
+Lemma tbind_res3 {A B} j n (a : A) rest (k : A * bytes -> tres B) :
+  tbind (res3 j n a rest) k = if (j <? n)%nat then TErr (eofc j) else k (a, firstn (j - n) rest).
+Proof. unfold res3. destruct (j <? n)%nat; reflexivity. Qed.
+Lemma dee_res3 {A} j n (a : A) rest :
+  dont_expect_eof (res3 j n a rest) = if (j <? n)%nat then TErr EUnexpectedEOF else TOk (a, firstn (j - n) rest).
+Proof. unfold res3. destruct (j <? n)%nat; [apply dee_eofc | reflexivity]. Qed.
+
+(* ---------- integers ---------- *)
+Lemma r_uvarint_spec max u : 0 <= u < 2 ^ 64 -> u <= max -> rspec (r_uvarint max) (uvarint u) u.
+Proof.
+  intros Hu Hm j rest. unfold r_uvarint. rewrite (uvarint_loop_spec u Hu j rest), tbind_res3.
+  unfold res3. destruct (j <? _)%nat; [reflexivity|].
+  replace (u >? max) with false by lia. reflexivity.
+Qed.
+Lemma r_varint_spec lo hi v : - 2 ^ 63 <= v < 2 ^ 63 -> lo <= v <= hi -> rspec (r_varint lo hi) (varint v) v.
+Proof.
+  intros Hv Hr j rest. unfold r_varint, varint. rewrite (uvarint_loop_spec _ (zz64_range v Hv) j rest), tbind_res3.
+  unfold res3. destruct (j <? _)%nat; [reflexivity|]. rewrite unzz_zz64.
+  replace ((v <? lo) || (v >? hi)) with false by lia. reflexivity.
+Qed.
+
+Lemma s8_w8 v : - 2 ^ 7 <= v < 2 ^ 7 -> s8 (w8 v) = v.
+Proof. unfold s8, w8. change (2 ^ 8) with 256. change (2 ^ 7) with 128. intros. destruct (_ <? _) eqn:E; dmlia. Qed.
+Lemma s16_w16 v : - 2 ^ 15 <= v < 2 ^ 15 -> s16 (w16 v mod 256 ^ Z.of_nat 2) = v.
+Proof. unfold s16, w16. change (256 ^ Z.of_nat 2) with 65536. change (2 ^ 16) with 65536. change (2 ^ 15) with 32768. intros. destruct (_ <? _) eqn:E; dmlia. Qed.
+Lemma s32_w32 v : - 2 ^ 31 <= v < 2 ^ 31 -> s32 (w32 v mod 256 ^ Z.of_nat 4) = v.
+Proof. unfold s32, w32. change (256 ^ Z.of_nat 4) with 4294967296. change (2 ^ 32) with 4294967296. change (2 ^ 31) with 2147483648. intros. destruct (_ <? _) eqn:E; dmlia. Qed.
+Lemma s64_w64 v : - 2 ^ 63 <= v < 2 ^ 63 -> s64 (w64 v mod 256 ^ Z.of_nat 8) = v.
+Proof. unfold s64, w64. change (256 ^ Z.of_nat 8) with 18446744073709551616. change (2 ^ 64) with 18446744073709551616. change (2 ^ 63) with 9223372036854775808. intros. destruct (_ <? _) eqn:E; dmlia. Qed.
+Lemma s32_id v : - 2 ^ 31 <= v < 2 ^ 31 -> s32 v = v.
+Proof. unfold s32, w32. change (2 ^ 32) with 4294967296. change (2 ^ 31) with 2147483648. intros. destruct (_ <? _) eqn:E; dmlia. Qed.
+Lemma s16_id v : - 2 ^ 15 <= v < 2 ^ 15 -> s16 v = v.
+Proof. unfold s16, w16. change (2 ^ 16) with 65536. change (2 ^ 15) with 32768. intros. destruct (_ <? _) eqn:E; dmlia. Qed.
+
+Lemma r_i16_spec p v : - 2 ^ 15 <= v < 2 ^ 15 -> rspec (r_i16 p) (w_i16 p v) v.
+Proof.
+  intros Hv. destruct p.
+  - intros j rest. unfold r_i16, w_i16.
+    rewrite (r_full_spec 2 (be_bytes 2 (w16 v)) (be_bytes_length _ _) ltac:(lia) j rest), tbind_res3.
+    unfold res3. destruct (j <? _)%nat; [reflexivity|]. rewrite be_val_be_bytes, s16_w16 by lia. reflexivity.
+  - apply r_varint_spec; lia.
+Qed.
+Lemma r_i32_spec p v : - 2 ^ 31 <= v < 2 ^ 31 -> rspec (r_i32 p) (w_i32 p v) v.
+Proof.
+  intros Hv. destruct p.
+  - intros j rest. unfold r_i32, w_i32.
+    rewrite (r_full_spec 4 (be_bytes 4 (w32 v)) (be_bytes_length _ _) ltac:(lia) j rest), tbind_res3.
+    unfold res3. destruct (j <? _)%nat; [reflexivity|]. rewrite be_val_be_bytes, s32_w32 by lia. reflexivity.
+  - apply r_varint_spec; lia.
+Qed.
+Lemma r_i64_spec p v : - 2 ^ 63 <= v < 2 ^ 63 -> rspec (r_i64 p) (w_i64 p v) v.
+Proof.
+  intros Hv. destruct p.
+  - intros j rest. unfold r_i64, w_i64.
+    rewrite (r_full_spec 8 (be_bytes 8 (w64 v)) (be_bytes_length _ _) ltac:(lia) j rest), tbind_res3.
+    unfold res3. destruct (j <? _)%nat; [reflexivity|]. rewrite be_val_be_bytes, s64_w64 by lia. reflexivity.
+  - apply r_varint_spec; lia.
+Qed.
+Lemma r_f64_spec p z : 0 <= z < 2 ^ 64 -> rspec (r_f64 p) (w_f64 p z) z.
+Proof.
+  intros Hz j rest. unfold r_f64, w_f64.
+  rewrite (r_full_spec 8 (be_bytes 8 z) (be_bytes_length _ _) ltac:(lia) j rest), tbind_res3.
+  unfold res3. destruct (j <? _)%nat; [reflexivity|]. rewrite be_val_be_bytes.
+  change (256 ^ Z.of_nat 8) with (2 ^ 64). rewrite Z.mod_small by lia. reflexivity.
+Qed.
+Lemma r_len_spec p n : 0 <= n < 2 ^ 31 -> rspec (r_len p) (w_len p n) n.
+Proof.
+  intros Hn. destruct p.
+  - intros j rest. unfold r_len, w_len.
+    rewrite (r_full_spec 4 (be_bytes 4 n) (be_bytes_length _ _) ltac:(lia) j rest), tbind_res3.
+    unfold res3. destruct (j <? _)%nat; [reflexivity|]. rewrite be_val_be_bytes.
+    change (256 ^ Z.of_nat 4) with (2 ^ 32). rewrite Z.mod_small by lia.
+    replace (n >? 2 ^ 31 - 1) with false by lia. reflexivity.
+  - apply r_uvarint_spec; lia.
+Qed.
+Lemma w_len_length p n : (1 <= length (w_len p n))%nat.
+Proof. destruct p; simpl; [lia|]. pose proof (uvarint_length n). lia. Qed.
+
+Lemma r_bytes_spec p s : len s < 2 ^ 31 -> rspec (r_bytes p) (w_bytes p s) s.
+Proof.
+  intros Hs j rest. unfold r_bytes, w_bytes. rewrite <- app_assoc.
+  assert (Hn : 0 <= len s < 2 ^ 31) by (unfold len in *; lia).
+  rewrite (r_len_spec p (len s) Hn j (s ++ rest)), tbind_res3.
+  pose proof (w_len_length p (len s)) as Hl. rewrite app_length.
+  destruct (Nat.ltb_spec j (length (w_len p (len s)))).
+  - rewrite res3_lt by lia. reflexivity.
+  - set (h := length (w_len p (len s))) in *.
+    destruct (Nat.ltb_spec (j - h) (length s)).
+    + rewrite firstn_app_lt by lia. unfold len at 1. rewrite firstn_length_le by lia.
+      replace (Z.of_nat (j - h) <? len s) with true by (unfold len; lia).
+      rewrite res3_lt by lia. rewrite eofc_pos by lia. reflexivity.
+    + rewrite firstn_app_ge by lia. unfold len at 1. rewrite app_length.
+      replace (Z.of_nat _ <? len s) with false by (unfold len; lia).
+      rewrite res3_ge by lia. unfold slice_to, slice_from, len. rewrite Nat2Z.id.
+      rewrite firstn_app, Nat.sub_diag, firstn_all. simpl. rewrite app_nil_r.
+      rewrite skipn_app, Nat.sub_diag, skipn_all. simpl.
+      do 3 f_equal. lia.
+Qed.
+
+(* ---------- nibble packing ---------- *)
+Lemma nib d t : 0 <= d < 16 -> 0 <= t < 16 ->
+  Z.lor (w8 (d * 16)) (w8 t) = t + d * 16.
+Proof.
+  intros Hd Ht. unfold w8. rewrite !Z.mod_small by (change (2 ^ 8) with 256; lia).
+  rewrite Z.lor_comm. change 16 with (2 ^ 4) at 1. rewrite lor_disjoint by (change (2 ^ 4) with 16; lia). reflexivity.
+Qed.
+Lemma nib_hi d t : 0 <= d < 16 -> 0 <= t < 16 -> Z.shiftr (t + d * 16) 4 = d.
+Proof. intros. rewrite Z.shiftr_div_pow2 by lia. change (2 ^ 4) with 16. dmlia. Qed.
+Lemma nib_lo d t : 0 <= d < 16 -> 0 <= t < 16 -> Z.land (t + d * 16) 15 = t.
+Proof. intros. change 15 with (Z.ones 4). rewrite Z.land_ones by lia. change (2 ^ 4) with 16. dmlia. Qed.
+
+(* ---------- field headers ---------- *)
+Definition fhdr (p : proto) (last id ty : Z) : bytes :=
+  w_field p (match p with PCompact => if s16 (id - last) <=? 15 then s16 (id - last) else id | PBinary => id end) ty.
+Definition fhdr_res (p : proto) (last id ty : Z) : Z * Z * bool :=
+  match p with
+  | PBinary => (id, ty, false)
+  | PCompact => if id - last <=? 15 then (id - last, ty, true) else (id, ty, false)
+  end.
+Lemma fhdr_res_id p last id ty : 0 <= last < id -> id < 2 ^ 15 ->
+  let '(rid, rty, isd) := fhdr_res p last id ty in (if isd then s16 (rid + last) else rid) = id /\ rty = ty.
+Proof.
+  intros. unfold fhdr_res. destruct p; [auto|]. destruct (_ <=? _); [|auto].
+  split; [|auto]. replace (id - last + last) with id by lia. apply s16_id. lia.
+Qed.
+
+Lemma r_field_spec p last id ty : 0 <= last < id -> id < 2 ^ 15 -> 1 <= ty <= 12 ->
+  rspec (r_field p) (fhdr p last id ty) (fhdr_res p last id ty).
+Proof.
+  intros Hl Hid Hty. unfold fhdr, fhdr_res. destruct p.
+  - intros j rest. unfold w_field, r_field. rewrite <- app_assoc.
+    rewrite (r_byte_spec (w8 ty) j), tbind_res3. rewrite app_length. cbn [length].
+    destruct (Nat.ltb_spec j 1); [rewrite res3_lt by (rewrite be_bytes_length; lia); reflexivity|].
+    rewrite (r_i16_spec PBinary id ltac:(lia) (j - 1)%nat rest : r_i16 PBinary (firstn (j - 1) (be_bytes 2 (w16 id) ++ rest)) = _).
+    rewrite dee_res3. cbn [w_i16]. rewrite be_bytes_length.
+    destruct (Nat.ltb_spec (j - 1) 2).
+    + rewrite res3_lt by lia. rewrite eofc_pos by lia. reflexivity.
+    + rewrite res3_ge by lia. cbn [tbind]. rewrite s8_w8 by lia. do 3 f_equal. lia.
+  - rewrite s16_id by lia. unfold w_field. replace (ty =? c_STOP) with false by (unfold c_STOP; lia).
+    destruct (id - last <=? 15) eqn:E.
+    + rewrite E. rewrite nib by lia.
+      intros j rest. unfold r_field. rewrite (r_byte_spec _ j rest), tbind_res3. cbn [length].
+      unfold res3. destruct (j <? 1)%nat; [reflexivity|].
+      replace (ty + (id - last) * 16 =? c_STOP) with false by (unfold c_STOP; lia).
+      rewrite nib_hi, nib_lo by lia. replace (id - last =? 0) with false by lia. reflexivity.
+    + replace (id <=? 15) with false by lia.
+      intros j rest. unfold r_field. rewrite <- app_assoc.
+      rewrite (r_byte_spec (w8 ty) j), tbind_res3. rewrite app_length. cbn [length].
+      destruct (Nat.ltb_spec j 1); [rewrite res3_lt by lia; reflexivity|].
+      assert (Hw : w8 ty = ty) by (unfold w8; change (2 ^ 8) with 256; dmlia). rewrite Hw.
+      replace (ty =? c_STOP) with false by (unfold c_STOP; lia).
+      replace (Z.shiftr ty 4) with 0 by (rewrite Z.shiftr_div_pow2 by lia; change (2 ^ 4) with 16; dmlia).
+      cbn [Z.eqb negb].
+      rewrite (r_i16_spec PCompact id ltac:(lia) (j - 1)%nat rest : r_i16 PCompact (firstn (j - 1) (varint id ++ rest)) = _).
+      rewrite dee_res3. cbn [w_i16].
+      destruct (Nat.ltb_spec (j - 1) (length (varint id))).
+      * rewrite res3_lt by lia. rewrite eofc_pos by lia. reflexivity.
+      * rewrite res3_ge by lia. cbn [tbind]. rewrite <- Hw at 1. rewrite s8_w8 by lia. do 3 f_equal. lia.
+Qed.
+
+Lemma r_field_stop_spec p : rspec (r_field p) (w_field p 0 c_STOP) (0, 0, false).
+Proof.
+  apply rspec_intro.
+  - intros rest. destruct p; reflexivity.
+  - intros j Hj. destruct p; simpl in Hj.
+    + destruct j as [|[|[|]]]; try lia; reflexivity.
+    + destruct j; try lia; reflexivity.
+Qed.
+Lemma fhdr_length p last id ty : (1 <= length (fhdr p last id ty))%nat.
+Proof.
+  unfold fhdr, w_field. destruct p; [simpl; lia|].
+  destruct (ty =? c_STOP); [simpl; lia|]. destruct (_ <=? 15); simpl; lia.
+Qed.
+Lemma stop_length p : (1 <= length (w_field p 0 c_STOP))%nat.
+Proof. destruct p; simpl; lia. Qed.
+
+(* ---------- list and map headers ---------- *)
+Lemma r_list_spec p size ty : 0 <= size < 2 ^ 31 -> 1 <= ty <= 12 -> rspec (r_list p) (w_list p size ty) (size, ty).
+Proof.
+  intros Hs Hty. assert (Hw : w8 ty = ty) by (unfold w8; change (2 ^ 8) with 256; dmlia). destruct p.
+  - intros j rest. unfold w_list, r_list. rewrite <- app_assoc.
+    rewrite (r_byte_spec (w8 ty) j), tbind_res3. rewrite app_length. cbn [length].
+    destruct (Nat.ltb_spec j 1); [rewrite res3_lt by lia; reflexivity|].
+    rewrite (r_i32_spec PBinary size ltac:(lia) (j - 1)%nat rest : r_i32 PBinary (firstn (j - 1) (be_bytes 4 (w32 size) ++ rest)) = _).
+    rewrite dee_res3. cbn [w_i32]. rewrite be_bytes_length.
+    destruct (Nat.ltb_spec (j - 1) 4).
+    + rewrite res3_lt by lia. rewrite eofc_pos by lia. reflexivity.
+    + rewrite res3_ge by lia. cbn [tbind]. rewrite s8_w8 by lia. do 3 f_equal. lia.
+  - unfold w_list. destruct (size <=? 14) eqn:E.
+    + rewrite nib by lia. intros j rest. unfold r_list. rewrite (r_byte_spec _ j rest), tbind_res3. cbn [length].
+      unfold res3. destruct (j <? 1)%nat; [reflexivity|].
+      rewrite nib_hi, nib_lo by lia. replace (size =? 15) with false by lia. reflexivity.
+    + change 240 with (w8 (15 * 16)). rewrite nib by lia.
+      intros j rest. unfold r_list. rewrite <- app_assoc.
+      rewrite (r_byte_spec _ j), tbind_res3. rewrite app_length. cbn [length].
+      destruct (Nat.ltb_spec j 1); [rewrite res3_lt by lia; reflexivity|].
+      rewrite nib_hi, nib_lo by lia. cbn [Z.eqb negb Pos.eqb].
+      rewrite (r_uvarint_spec (2 ^ 31 - 1) size ltac:(lia) ltac:(lia) (j - 1)%nat rest).
+      rewrite dee_res3.
+      destruct (Nat.ltb_spec (j - 1) (length (uvarint size))).
+      * rewrite res3_lt by lia. rewrite eofc_pos by lia. reflexivity.
+      * rewrite res3_ge by lia. cbn [tbind]. do 3 f_equal. lia.
+Qed.
+Lemma w_list_length p size ty : (1 <= length (w_list p size ty))%nat.
+Proof. unfold w_list. destruct p; [simpl; lia|]. destruct (_ <=? _); simpl; lia. Qed.
+
+Definition map_res (p : proto) (size k v : Z) : Z * Z * Z :=
+  match p with PBinary => (size, k, v) | PCompact => if size =? 0 then (0, 0, 0) else (size, k, v) end.
+Lemma r_map_spec p size k v : 0 <= size < 2 ^ 31 -> 1 <= k <= 12 -> 1 <= v <= 12 ->
+  rspec (r_map p) (w_map p size k v) (map_res p size k v).
+Proof.
+  intros Hs Hk Hv.
+  assert (Hwk : w8 k = k) by (unfold w8; change (2 ^ 8) with 256; dmlia).
+  assert (Hwv : w8 v = v) by (unfold w8; change (2 ^ 8) with 256; dmlia).
+  destruct p.
+  - intros j rest. unfold w_map, r_map, map_res.
+    change (([w8 k; w8 v] ++ be_bytes 4 (w32 size)) ++ rest) with ([w8 k] ++ ([w8 v] ++ (be_bytes 4 (w32 size) ++ rest))).
+    rewrite (r_byte_spec (w8 k) j), tbind_res3. rewrite app_length, be_bytes_length. cbn [length].
+    destruct (Nat.ltb_spec j 1); [rewrite res3_lt by lia; reflexivity|].
+    rewrite (r_byte_spec (w8 v) (j - 1)%nat), dee_res3. cbn [length].
+    destruct (Nat.ltb_spec (j - 1) 1); [rewrite res3_lt by lia; rewrite eofc_pos by lia; reflexivity|].
+    cbn [tbind].
+    rewrite (r_i32_spec PBinary size ltac:(lia) (j - 1 - 1)%nat rest : r_i32 PBinary (firstn (j - 1 - 1) (be_bytes 4 (w32 size) ++ rest)) = _).
+    rewrite dee_res3. cbn [w_i32]. rewrite be_bytes_length.
+    destruct (Nat.ltb_spec (j - 1 - 1) 4).
+    + rewrite res3_lt by lia. rewrite eofc_pos by lia. reflexivity.
+    + rewrite res3_ge by lia. cbn [tbind]. rewrite !s8_w8 by lia. do 3 f_equal. lia.
+  - intros j rest. unfold w_map, r_map, map_res. rewrite <- app_assoc.
+    rewrite (r_uvarint_spec (2 ^ 31 - 1) size ltac:(lia) ltac:(lia) j), tbind_res3. rewrite app_length.
+    pose proof (uvarint_length size) as Hul.
+    destruct (Nat.ltb_spec j (length (uvarint size))); [rewrite res3_lt by lia; reflexivity|].
+    destruct (size =? 0) eqn:E.
+    + cbn [app length]. rewrite res3_ge by lia. do 3 f_equal. lia.
+    + rewrite nib by lia. rewrite (r_byte_spec _ (j - length (uvarint size))%nat rest), dee_res3. cbn [length].
+      destruct (Nat.ltb_spec (j - length (uvarint size)) 1).
+      * rewrite res3_lt by lia. rewrite eofc_pos by lia. reflexivity.
+      * rewrite res3_ge by lia. cbn [tbind]. rewrite nib_hi, nib_lo by lia. do 3 f_equal. lia.
+Qed.
+Lemma w_map_length p size k v : (1 <= length (w_map p size k v))%nat.
+Proof. unfold w_map. destruct p; [simpl; lia|]. rewrite app_length. pose proof (uvarint_length size). lia. Qed.
+
+(* ====================================================================== *)
+(* ---------- induction principle for the nested type ---------- *)
+Lemma tty_ind' (P : tty -> Prop)
+  (Hbool : P ThBool) (Hi8 : P ThI8) (Hi16 : P ThI16) (Hi32 : P ThI32) (Hi64 : P ThI64) (Hf64 : P ThF64)
+  (Hstr : P ThStr) (Hbytes : P ThBytes)
+  (Hlist : forall t, P t -> P (ThList t)) (Hset : forall t, P t -> P (ThSet t))
+  (Hmap : forall k v, P k -> P v -> P (ThMap k v))
+  (Hstruct : forall fs, Forall (fun f => P (fld_ty f)) fs -> P (ThStruct fs))
+  (Hptr : forall t, P t -> P (ThPtr t)) : forall t, P t.
+Proof.
+  fix IH 1. intros [ | | | | | | | | t | t | k v | fs | t].
+  - exact Hbool. - exact Hi8. - exact Hi16. - exact Hi32. - exact Hi64. - exact Hf64. - exact Hstr. - exact Hbytes.
+  - apply Hlist, IH. - apply Hset, IH. - apply Hmap; apply IH.
+  - apply Hstruct. induction fs as [|[id fl ft] r IHr]; constructor; [apply IH | apply IHr].
+  - apply Hptr, IH.
+Qed.
+
+(* ---------- named versions of the local fixpoints of enc ---------- *)
+Definition enc_elems (p : proto) (et : tty) := fix go (es : list tval) : bytes :=
+  match es with [] => [] | x :: r => enc p et x ++ go r end.
+Definition enc_pairs (p : proto) (kt vt : tty) := fix go (es : list (tval * tval)) : bytes :=
+  match es with [] => [] | (k, x) :: r => enc p kt k ++ enc p vt x ++ go r end.
+Lemma enc_elems_cons p et x r : enc_elems p et (x :: r) = enc p et x ++ enc_elems p et r.
+Proof. reflexivity. Qed.
+Lemma enc_pairs_cons p kt vt k x r : enc_pairs p kt vt ((k, x) :: r) = enc p kt k ++ enc p vt x ++ enc_pairs p kt vt r.
+Proof. reflexivity. Qed.
+Definition nilp (x : tval) : bool := match x with TvPtr None => true | _ => false end.
+Definition fbody (p : proto) (f : tfield) (x : tval) : bytes :=
+  match f with TField _ fl ft =>
+    if has_flag fl f_enum then
+      match ft, x with
+      | (ThI8 | ThI16 | ThI32 | ThI64), TvInt z => w_i32 p (s32 z)
+      | _, _ => enc p ft x
+      end
+    else enc p ft x end.
+Definition mk_encs (p : proto) := fix mk (fs : list tfield) (vs : list tval) : list (tfield * (tval * bytes)) :=
+  match fs, vs with f :: fr, x :: vr => (f, (x, fbody p f x)) :: mk fr vr | _, _ => [] end.
+Lemma mk_encs_cons p f fr x vr : mk_encs p (f :: fr) (x :: vr) = (f, (x, fbody p f x)) :: mk_encs p fr vr.
+Proof. reflexivity. Qed.
+Definition fskip (f : tfield) (x : tval) : bool :=
+  nilp x || (negb (has_flag (fld_flags f) f_required) && is_zero_t (fld_ty f) x).
+Definition coalesce (p : proto) (ty : Z) : bool := match p with PCompact => ty =? c_BOOL | PBinary => false end.
+Definition enc_go (p : proto) := fix go (l : list (tfield * (tval * bytes))) (last : Z) : bytes :=
+  match l with
+  | [] => w_field p 0 c_STOP
+  | (f, (x, body)) :: r =>
+      if fskip f x then go r last else
+      let ty := type_of (fld_ty f) in
+      let wty := if coalesce p ty && deref_bool x then c_TRUE else ty in
+      fhdr p last (fld_id f) wty ++ (if coalesce p ty then [] else body) ++ go r (fld_id f)
+  end.
+Lemma enc_go_nil p last : enc_go p [] last = w_field p 0 c_STOP.
+Proof. reflexivity. Qed.
+Lemma enc_go_cons p f x body r last : enc_go p ((f, (x, body)) :: r) last =
+      if fskip f x then enc_go p r last else
+      let ty := type_of (fld_ty f) in
+      let wty := if coalesce p ty && deref_bool x then c_TRUE else ty in
+      fhdr p last (fld_id f) wty ++ (if coalesce p ty then [] else body) ++ enc_go p r (fld_id f).
+Proof. reflexivity. Qed.
+
+Lemma enc_list_eq p et nn es : enc p (ThList et) (TvList nn es) = w_list p (len es) (type_of et) ++ enc_elems p et es.
+Proof. reflexivity. Qed.
+Lemma enc_set_eq p kt nn ks : enc p (ThSet kt) (TvSet nn ks) = w_list p (len ks) (type_of kt) ++ enc_elems p kt ks.
+Proof. reflexivity. Qed.
+Lemma enc_map_eq p kt vt nn es : enc p (ThMap kt vt) (TvMap nn es) = w_map p (len es) (type_of kt) (type_of vt) ++ enc_pairs p kt vt es.
+Proof. reflexivity. Qed.
+Lemma enc_struct_eq p fs vs : enc p (ThStruct fs) (TvStruct vs) = enc_go p (sort_by_id (mk_encs p fs vs)) 0.
+Proof. reflexivity. Qed.
+
+(* ---------- named versions of the local fixpoints of dec ---------- *)
+Definition lloop (f : nat) (p : proto) (et : tty) (flags : Z) :=
+  fix go (k : nat) (cnt : Z) (acc : list tval) (r : bytes) : tres (tval * bytes) :=
+    if cnt <=? 0 then TOk (TvList true (rev acc), r) else
+    match k with
+    | O => TOutOfFuel
+    | S k' => tlet (x, r) <- dont_expect_eof (dec f p et (Z.land flags f_strict) (zero_of et) r) in go k' (cnt - 1) (x :: acc) r
+    end.
+Definition stloop (f : nat) (p : proto) (kt : tty) (flags : Z) :=
+  fix go (k : nat) (cnt : Z) (acc : list tval) (r : bytes) : tres (tval * bytes) :=
+    if cnt <=? 0 then TOk (TvSet true acc, r) else
+    match k with
+    | O => TOutOfFuel
+    | S k' => tlet (x, r) <- dont_expect_eof (dec f p kt (Z.land flags f_strict) (zero_of kt) r) in go k' (cnt - 1) (set_add acc x) r
+    end.
+Definition mloop (f : nat) (p : proto) (kt vt : tty) (flags : Z) :=
+  fix go (k : nat) (cnt : Z) (acc : list (tval * tval)) (r : bytes) : tres (tval * bytes) :=
+    if cnt <=? 0 then TOk (TvMap true acc, r) else
+    match k with
+    | O => TOutOfFuel
+    | S k' =>
+        tlet (x, r) <- dont_expect_eof (dec f p kt (Z.land flags f_strict) (zero_of kt) r) in
+        tlet (y, r) <- dont_expect_eof (dec f p vt (Z.land flags f_strict) (zero_of vt) r) in
+        go k' (cnt - 1) (map_set acc x y) r
+    end.
+
+Lemma dec_list_eq f p et flags old b :
+  dec (S f) p (ThList et) flags old b =
+  tlet (h, r) <- r_list p b in
+  let '(n, lt) := h in
+  let lt := if lt =? c_TRUE then c_BOOL else lt in
+  if negb (type_of et =? lt) then (if has_flag flags f_strict then TErr EMismatch else TOk (old, r)) else
+  if n <? 0 then TErr EOther else lloop f p et flags (S (length r)) n [] r.
+Proof. reflexivity. Qed.
+Lemma dec_set_eq f p kt flags old b :
+  dec (S f) p (ThSet kt) flags old b =
+  tlet (h, r) <- r_list p b in
+  let '(n, lt) := h in
+  let lt := if lt =? c_TRUE then c_BOOL else lt in
+  if n <? 0 then TErr EOther else
+  if n =? 0 then TOk (TvSet true [], r) else
+  if negb (type_of kt =? lt) then (if has_flag flags f_strict then TErr EMismatch else TOk (TvSet true [], r)) else
+  stloop f p kt flags (S (length r)) n [] r.
+Proof. reflexivity. Qed.
+Lemma dec_map_eq f p kt vt flags old b :
+  dec (S f) p (ThMap kt vt) flags old b =
+  tlet (h, r) <- r_map p b in
+  let '(n, mk, mv) := h in
+  if n <? 0 then TErr EOther else
+  if n =? 0 then TOk (TvMap true [], r) else
+  if negb (type_of kt =? mk) then (if has_flag flags f_strict then TErr EMismatch else TOk (TvMap true [], r)) else
+  if negb (type_of vt =? mv) then (if has_flag flags f_strict then TErr EMismatch else TOk (TvMap true [], r)) else
+  mloop f p kt vt flags (S (length r)) n [] r.
+Proof. reflexivity. Qed.
+
+Definition s_minID (fs : list tfield) : Z := fold_left (fun m i => if (i <? m) || (m =? 0) then i else m) (map fld_id fs) 0.
+Definition s_maxID (fs : list tfield) : Z := fold_left Z.max (map fld_id fs) 0.
+Definition lookup_go (id : Z) := fix go (fs : list tfield) (i : nat) : option (nat * tfield) :=
+  match fs with [] => None | fd :: r => if fld_id fd =? id then Some (i, fd) else go r (S i) end.
+Lemma lookup_go_cons id fd r i : lookup_go id (fd :: r) i = if fld_id fd =? id then Some (i, fd) else lookup_go id r (S i).
+Proof. reflexivity. Qed.
+Definition fdec (f : nat) (p : proto) (fd : tfield) (fl : Z) (oldf : tval) (r : bytes) : tres (tval * bytes) :=
+  if has_flag (fld_flags fd) f_enum then
+    match fld_ty fd with
+    | ThI8 | ThI16 | ThI32 | ThI64 => tlet (z, r) <- r_i32 p r in TOk (TvInt z, r)
+    | ft => dec f p ft fl oldf r
+    end
+  else dec f p (fld_ty fd) fl oldf r.
+Definition smissing (fs : list tfield) (seen : list Z) : bool :=
+  existsb (fun fd => has_flag (fld_flags fd) f_required && negb (existsb (Z.eqb (fld_id fd - s_minID fs)) seen)) fs.
+Definition is_compact (p : proto) : bool := match p with PCompact => true | PBinary => false end.
+
+Definition sloop (f : nat) (p : proto) (fs : list tfield) (flags : Z) :=
+  fix loop (k : nat) (r : bytes) (last : Z) (nfields : Z) (vs : list tval) (seen : list Z) : tres (tval * bytes) :=
+    match k with O => TOutOfFuel | S k' =>
+      match r_field p r with
+      | TErr e => TErr (if (nfields >? 0) && (match e with EEOF => true | _ => false end) then EUnexpectedEOF else e)
+      | TPanic => TPanic | TOutOfFuel => TOutOfFuel
+      | TOk ((id, fty, isdelta), r) =>
+          if fty =? c_STOP then
+            if smissing fs seen then TErr EMissing else TOk (TvStruct vs, r)
+          else
+          let id := if isdelta then s16 (id + last) else id in
+          let slot := id - s_minID fs in
+          let nslots := s_maxID fs - s_minID fs + 1 in
+          let known := if (slot <? 0) || (slot >=? nslots) then None else lookup_go id fs O in
+          match known with
+          | None =>
+              tlet r <- dont_expect_eof
+                          (if ((fty =? c_TRUE) || (fty =? c_BOOL)) && is_compact p
+                           then TOk r else skip f p fty r) in
+              loop k' r id (nfields + 1) vs seen
+          | Some (i, fd) =>
+              if (slot / 64 >=? nslots / 64 + 1) then TPanic else
+              let seen := slot :: seen in
+              let fexp := type_of (fld_ty fd) in
+              if negb (fty =? fexp) && negb ((fty =? c_TRUE) && (fexp =? c_BOOL)) then
+                (if has_flag flags f_strict then TErr EMismatch else loop k' r id (nfields + 1) vs seen)
+              else
+              let oldf := nth i vs (zero_of (fld_ty fd)) in
+              if is_compact p && ((fty =? c_TRUE) || (fty =? c_BOOL)) then
+                loop k' r id (nfields + 1) (set_nth vs i (wrap_ptrs (fld_ty fd) (TvBool (fty =? c_TRUE)))) seen
+              else
+              let fl := Z.lor (Z.land flags f_strict) (fld_flags fd) in
+              tlet (x, r) <- dont_expect_eof (fdec f p fd fl oldf r) in
+              loop k' r id (nfields + 1) (set_nth vs i x) seen
+          end
+      end
+    end.
+
+Fixpoint zero_fields (fs : list tfield) : list tval := match fs with [] => [] | TField _ _ ft :: r => zero_of ft :: zero_fields r end.
+Lemma zero_struct_eq fs : zero_of (ThStruct fs) = TvStruct (zero_fields fs).
+Proof. reflexivity. Qed.
+
+Lemma dec_struct_eq f p fs flags old b :
+  dec (S f) p (ThStruct fs) flags old b =
+  sloop f p fs flags f b 0 0 (match old with TvStruct vs => vs | _ => zero_fields fs end) [].
+Proof. reflexivity. Qed.
+Lemma dec_ptr_eq f p t' flags old b :
+  dec (S f) p (ThPtr t') flags old b =
+  tlet (x, r) <- dec f p t' flags (match old with TvPtr (Some x) => x | _ => zero_of t' end) b in TOk (TvPtr (Some x), r).
+Proof. reflexivity. Qed.
+
+Lemma sloop_S f p fs flags k' r last nfields vs seen :
+  sloop f p fs flags (S k') r last nfields vs seen =
+      match r_field p r with
+      | TErr e => TErr (if (nfields >? 0) && (match e with EEOF => true | _ => false end) then EUnexpectedEOF else e)
+      | TPanic => TPanic | TOutOfFuel => TOutOfFuel
+      | TOk ((id, fty, isdelta), r) =>
+          if fty =? c_STOP then
+            if smissing fs seen then TErr EMissing else TOk (TvStruct vs, r)
+          else
+          let id := if isdelta then s16 (id + last) else id in
+          let slot := id - s_minID fs in
+          let nslots := s_maxID fs - s_minID fs + 1 in
+          let known := if (slot <? 0) || (slot >=? nslots) then None else lookup_go id fs O in
+          match known with
+          | None =>
+              tlet r <- dont_expect_eof
+                          (if ((fty =? c_TRUE) || (fty =? c_BOOL)) && is_compact p
+                           then TOk r else skip f p fty r) in
+              sloop f p fs flags k' r id (nfields + 1) vs seen
+          | Some (i, fd) =>
+              if (slot / 64 >=? nslots / 64 + 1) then TPanic else
+              let seen := slot :: seen in
+              let fexp := type_of (fld_ty fd) in
+              if negb (fty =? fexp) && negb ((fty =? c_TRUE) && (fexp =? c_BOOL)) then
+                (if has_flag flags f_strict then TErr EMismatch else sloop f p fs flags k' r id (nfields + 1) vs seen)
+              else
+              let oldf := nth i vs (zero_of (fld_ty fd)) in
+              if is_compact p && ((fty =? c_TRUE) || (fty =? c_BOOL)) then
+                sloop f p fs flags k' r id (nfields + 1) (set_nth vs i (wrap_ptrs (fld_ty fd) (TvBool (fty =? c_TRUE)))) seen
+              else
+              let fl := Z.lor (Z.land flags f_strict) (fld_flags fd) in
+              tlet (x, r) <- dont_expect_eof (fdec f p fd fl oldf r) in
+              sloop f p fs flags k' r id (nfields + 1) (set_nth vs i x) seen
+          end
+      end.
+Proof. reflexivity. Qed.
+Lemma lloop_eq f p et flags k cnt acc r :
+  lloop f p et flags k cnt acc r =
+    if cnt <=? 0 then TOk (TvList true (rev acc), r) else
+    match k with
+    | O => TOutOfFuel
+    | S k' => tlet (x, r) <- dont_expect_eof (dec f p et (Z.land flags f_strict) (zero_of et) r) in lloop f p et flags k' (cnt - 1) (x :: acc) r
+    end.
+Proof. destruct k; reflexivity. Qed.
+Lemma stloop_eq f p kt flags k cnt acc r :
+  stloop f p kt flags k cnt acc r =
+    if cnt <=? 0 then TOk (TvSet true acc, r) else
+    match k with
+    | O => TOutOfFuel
+    | S k' => tlet (x, r) <- dont_expect_eof (dec f p kt (Z.land flags f_strict) (zero_of kt) r) in stloop f p kt flags k' (cnt - 1) (set_add acc x) r
+    end.
+Proof. destruct k; reflexivity. Qed.
+Lemma mloop_eq f p kt vt flags k cnt acc r :
+  mloop f p kt vt flags k cnt acc r =
+    if cnt <=? 0 then TOk (TvMap true acc, r) else
+    match k with
+    | O => TOutOfFuel
+    | S k' =>
+        tlet (x, r) <- dont_expect_eof (dec f p kt (Z.land flags f_strict) (zero_of kt) r) in
+        tlet (y, r) <- dont_expect_eof (dec f p vt (Z.land flags f_strict) (zero_of vt) r) in
+        mloop f p kt vt flags k' (cnt - 1) (map_set acc x y) r
+    end.
+Proof. destruct k; reflexivity. Qed.
+
+(* ====================================================================== *)
+(* ---------- the decoded value, as a function ---------- *)
+Fixpoint dval (t : tty) (v : tval) {struct t} : tval :=
+  match t, v with
+  | (ThStr | ThBytes), TvBytes _ s => TvBytes true s
+  | ThPtr t', TvPtr (Some x) => TvPtr (Some (dval t' x))
+  | ThList et, TvList _ es => TvList true (map (dval et) es)
+  | ThSet _, TvSet _ ks => TvSet true ks
+  | ThMap kt vt, TvMap _ es => TvMap true (map (fun kx => (fst kx, dval vt (snd kx))) es)
+  | ThStruct fs, TvStruct vs =>
+      TvStruct ((fix go (fs : list tfield) (vs : list tval) : list tval :=
+                   match fs, vs with
+                   | TField id fl ft :: fr, x :: vr => (if fskip (TField id fl ft) x then zero_of ft else dval ft x) :: go fr vr
+                   | _, _ => []
+                   end) fs vs)
+  | _, _ => v
+  end.
+Fixpoint cur_of (rem : list Z) (fs : list tfield) (vs : list tval) : list tval :=
+  match fs, vs with
+  | fd :: fr, x :: vr =>
+      (if existsb (Z.eqb (fld_id fd)) rem || fskip fd x then zero_of (fld_ty fd) else dval (fld_ty fd) x) :: cur_of rem fr vr
+  | _, _ => []
+  end.
+Lemma dval_struct_eq fs vs : dval (ThStruct fs) (TvStruct vs) = TvStruct (cur_of [] fs vs).
+Proof.
+  cbn [dval]. f_equal. revert vs. induction fs as [|[id fl ft] fr IH]; intros [|x vr]; try reflexivity.
+  cbn [cur_of existsb orb fld_ty]. rewrite IH. reflexivity.
+Qed.
+
+Definition mainP (t : tty) : Prop := forall p v flags fuel, ty_ok t = true -> tval_wf t v = true -> nilp v = false ->
+  (length (enc p t v) + tdepth t <= fuel)%nat -> rspec (dec fuel p t flags (zero_of t)) (enc p t v) (dval t v).
+
+(* ---------- simple facts ---------- *)
+Lemma type_of_range t : 2 <= type_of t <= 12.
+Proof. induction t; cbn [type_of]; unfold c_BOOL, c_I8, c_I16, c_I32, c_I64, c_DOUBLE, c_BINARY, c_LIST, c_SET, c_MAP, c_STRUCT; lia. Qed.
+Lemma tdepth_pos t : (1 <= tdepth t)%nat.
+Proof. destruct t; simpl; lia. Qed.
+
+Lemma enc_go_len_pos p l : forall last, (1 <= length (enc_go p l last))%nat.
+Proof.
+  induction l as [|[f [x body]] r IH]; intros last.
+  - rewrite enc_go_nil. apply stop_length.
+  - rewrite enc_go_cons. destruct (fskip f x); [apply IH|]. cbv zeta. rewrite app_length.
+    pose proof (fhdr_length p last (fld_id f) (if coalesce p (type_of (fld_ty f)) && deref_bool x then c_TRUE else type_of (fld_ty f))). lia.
+Qed.
+Lemma wf_not_ptr t v : tval_wf t v = true -> (match t with ThPtr _ => false | _ => true end) = true -> nilp v = false.
+Proof. intros Hwf Ht. destruct v; try reflexivity. destruct t; discriminate. Qed.
+Lemma enc_len_pos p t : forall v, ty_ok t = true -> tval_wf t v = true -> nilp v = false -> (1 <= length (enc p t v))%nat.
+Proof.
+  induction t; intros v Hok Hwf Hn; destruct v; try discriminate Hwf.
+  - simpl. lia.
+  - simpl. lia.
+  - simpl. destruct p; simpl; [lia|]. pose proof (uvarint_length (zz64 z)). unfold varint. lia.
+  - simpl. destruct p; simpl; [lia|]. pose proof (uvarint_length (zz64 z)). unfold varint. lia.
+  - simpl. destruct p; simpl; [lia|]. pose proof (uvarint_length (zz64 z)). unfold varint. lia.
+  - simpl. lia.
+  - cbn [enc]. unfold w_bytes. rewrite app_length. pose proof (w_len_length p (len s)). lia.
+  - cbn [enc]. unfold w_bytes. rewrite app_length. pose proof (w_len_length p (len s)). lia.
+  - rewrite enc_list_eq, app_length. pose proof (w_list_length p (len es) (type_of t)). lia.
+  - rewrite enc_set_eq, app_length. pose proof (w_list_length p (len ks) (type_of t)). lia.
+  - rewrite enc_map_eq, app_length. pose proof (w_map_length p (len es) (type_of t1) (type_of t2)). lia.
+  - rewrite enc_struct_eq. apply enc_go_len_pos.
+  - destruct o; [|discriminate Hn]. cbn [enc]. cbn [ty_ok] in Hok. apply andb_true_iff in Hok. destruct Hok as [Hok1 Hok2].
+    apply IHt; [exact Hok1 | exact Hwf |]. eapply wf_not_ptr; eauto.
+Qed.
+
+(* ---------- scalar cases ---------- *)
+Lemma dec_bool_eq f p flags old b : dec (S f) p ThBool flags old b = tlet (x, r) <- r_byte b in TOk (TvBool (negb (x =? 0)), r).
+Proof. reflexivity. Qed.
+Lemma dec_i8_eq f p flags old b : dec (S f) p ThI8 flags old b = tlet (x, r) <- r_byte b in TOk (TvInt (s8 x), r).
+Proof. reflexivity. Qed.
+Lemma dec_i16_eq f p flags old b : dec (S f) p ThI16 flags old b = tlet (x, r) <- r_i16 p b in TOk (TvInt x, r).
+Proof. reflexivity. Qed.
+Lemma dec_i32_eq f p flags old b : dec (S f) p ThI32 flags old b = tlet (x, r) <- r_i32 p b in TOk (TvInt x, r).
+Proof. reflexivity. Qed.
+Lemma dec_i64_eq f p flags old b : dec (S f) p ThI64 flags old b = tlet (x, r) <- r_i64 p b in TOk (TvInt x, r).
+Proof. reflexivity. Qed.
+Lemma dec_f64_eq f p flags old b : dec (S f) p ThF64 flags old b = tlet (x, r) <- r_f64 p b in TOk (TvInt x, r).
+Proof. reflexivity. Qed.
+Lemma dec_str_eq f p flags old b : dec (S f) p ThStr flags old b = tlet (s, r) <- r_bytes p b in TOk (TvBytes true s, r).
+Proof. reflexivity. Qed.
+Lemma dec_bytes_eq f p flags old b : dec (S f) p ThBytes flags old b = tlet (s, r) <- r_bytes p b in TOk (TvBytes true s, r).
+Proof. reflexivity. Qed.
+
+
+Lemma main_bool : mainP ThBool.
+Proof.
+  intros p v flags fuel _ Hwf _ Hf. destruct v; try discriminate Hwf. destruct fuel; [simpl in Hf; lia|].
+  intros j rest. rewrite dec_bool_eq. cbn [enc dval]. rewrite (r_byte_spec _ j rest), tbind_res3. unfold res3.
+  destruct (j <? _)%nat; [reflexivity|]. destruct b; reflexivity.
+Qed.
+Lemma main_i8 : mainP ThI8.
+Proof.
+  intros p v flags fuel _ Hwf _ Hf. destruct v; try discriminate Hwf. destruct fuel; [simpl in Hf; lia|].
+  intros j rest. rewrite dec_i8_eq. cbn [enc dval]. rewrite (r_byte_spec _ j rest), tbind_res3. unfold res3.
+  destruct (j <? _)%nat; [reflexivity|]. cbn [tval_wf] in Hwf. rewrite s8_w8 by lia. reflexivity.
+Qed.
+Lemma main_i16 : mainP ThI16.
+Proof.
+  intros p v flags fuel _ Hwf _ Hf. destruct v; try discriminate Hwf. destruct fuel; [simpl in Hf; lia|].
+  intros j rest. rewrite dec_i16_eq. cbn [enc dval]. cbn [tval_wf] in Hwf. rewrite (r_i16_spec p z ltac:(lia) j rest), tbind_res3. unfold res3.
+  destruct (j <? _)%nat; reflexivity.
+Qed.
+Lemma main_i32 : mainP ThI32.
+Proof.
+  intros p v flags fuel _ Hwf _ Hf. destruct v; try discriminate Hwf. destruct fuel; [simpl in Hf; lia|].
+  intros j rest. rewrite dec_i32_eq. cbn [enc dval]. cbn [tval_wf] in Hwf. rewrite (r_i32_spec p z ltac:(lia) j rest), tbind_res3. unfold res3.
+  destruct (j <? _)%nat; reflexivity.
+Qed.
+Lemma main_i64 : mainP ThI64.
+Proof.
+  intros p v flags fuel _ Hwf _ Hf. destruct v; try discriminate Hwf. destruct fuel; [simpl in Hf; lia|].
+  intros j rest. rewrite dec_i64_eq. cbn [enc dval]. cbn [tval_wf] in Hwf. rewrite (r_i64_spec p z ltac:(lia) j rest), tbind_res3. unfold res3.
+  destruct (j <? _)%nat; reflexivity.
+Qed.
+Lemma main_f64 : mainP ThF64.
+Proof.
+  intros p v flags fuel _ Hwf _ Hf. destruct v; try discriminate Hwf. destruct fuel; [simpl in Hf; lia|].
+  intros j rest. rewrite dec_f64_eq. cbn [enc dval]. cbn [tval_wf] in Hwf. rewrite (r_f64_spec p z ltac:(lia) j rest), tbind_res3. unfold res3.
+  destruct (j <? _)%nat; reflexivity.
+Qed.
+Lemma main_str : mainP ThStr.
+Proof.
+  intros p v flags fuel _ Hwf _ Hf. destruct v; try discriminate Hwf. destruct fuel; [simpl in Hf; lia|].
+  intros j rest. rewrite dec_str_eq. cbn [enc dval]. cbn [tval_wf] in Hwf. unfold tlim in Hwf.
+  rewrite (r_bytes_spec p s ltac:(lia) j rest), tbind_res3. unfold res3.
+  destruct (j <? _)%nat; reflexivity.
+Qed.
+Lemma main_bytes : mainP ThBytes.
+Proof.
+  intros p v flags fuel _ Hwf _ Hf. destruct v; try discriminate Hwf. destruct fuel; [simpl in Hf; lia|].
+  intros j rest. rewrite dec_bytes_eq. cbn [enc dval]. cbn [tval_wf] in Hwf. unfold tlim in Hwf.
+  rewrite (r_bytes_spec p s ltac:(lia) j rest), tbind_res3. unfold res3.
+  destruct (j <? _)%nat; reflexivity.
+Qed.
+
+(* ---------- pointers ---------- *)
+Lemma main_ptr t : mainP t -> mainP (ThPtr t).
+Proof.
+  intros IH p v flags fuel Hok Hwf Hn Hf. destruct v; try discriminate Hwf. destruct o; [|discriminate Hn].
+  cbn [ty_ok] in Hok. apply andb_true_iff in Hok. destruct Hok as [Hok1 Hok2].
+  destruct fuel; [simpl in Hf; lia|].
+  intros j rest. rewrite dec_ptr_eq. cbn [enc dval zero_of]. cbn [tval_wf] in Hwf. cbn [tdepth] in Hf.
+  rewrite (IH p t0 flags fuel Hok1 Hwf (wf_not_ptr _ _ Hwf Hok2) ltac:(cbn [enc] in Hf; lia) j rest), tbind_res3.
+  unfold res3. destruct (j <? _)%nat; reflexivity.
+Qed.
+
+(* ---------- lists ---------- *)
+Lemma wf_list_inv et nn es : tval_wf (ThList et) (TvList nn es) = true ->
+  len es < tlim /\ Forall (fun x => tval_wf et x = true /\ nilp x = false) es.
+Proof.
+  cbn [tval_wf]. intros H. apply andb_true_iff in H. destruct H as [H H2]. apply andb_true_iff in H. destruct H as [H0 H1].
+  split; [apply Z.ltb_lt in H0; exact H0|]. clear H0 H1. induction es as [|x r IH]; constructor.
+  - apply andb_true_iff in H2. destruct H2 as [H2 _]. apply andb_true_iff in H2. destruct H2 as [Ha Hb].
+    split; [exact Ha|]. unfold nilp. destruct (match x with TvPtr None => true | _ => false end); [discriminate|reflexivity].
+  - apply IH. apply andb_true_iff in H2. apply H2.
+Qed.
+
+Lemma firstn_len_step {A} (j a K' : nat) (w1 w2 : list A) :
+  length w1 = a -> (1 <= a)%nat -> (a <= j)%nat -> (length (firstn j (w1 ++ w2)) < S K')%nat ->
+  (length (firstn (j - a) w2) < K')%nat.
+Proof. intros H1 H2 H3. rewrite !firstn_length, app_length. lia. Qed.
+
+Lemma lloop_spec f p et flags : mainP et -> ty_ok et = true -> forall es,
+  Forall (fun x => tval_wf et x = true /\ nilp x = false) es ->
+  (length (enc_elems p et es) + tdepth et <= f)%nat ->
+  forall K acc j rest, (length (firstn j (enc_elems p et es ++ rest)) < K)%nat ->
+  lloop f p et flags K (len es) acc (firstn j (enc_elems p et es ++ rest)) =
+    if (j <? length (enc_elems p et es))%nat then TErr EUnexpectedEOF
+    else TOk (TvList true (rev acc ++ map (dval et) es), firstn (j - length (enc_elems p et es)) rest).
+Proof.
+  intros IH Hok es. induction es as [|x es' IHes]; intros HF Hf K acc j rest HK.
+  - rewrite lloop_eq. cbn. rewrite app_nil_r, Nat.sub_0_r. reflexivity.
+  - rewrite lloop_eq. replace (len (x :: es') <=? 0) with false by (unfold len; cbn [length]; lia).
+    destruct K as [|K']; [lia|]. inversion HF as [|? ? [Hx1 Hx2] HF']; subst.
+    rewrite enc_elems_cons in *. rewrite app_length in *. rewrite <- app_assoc in *.
+    pose proof (enc_len_pos p et x Hok Hx1 Hx2) as Hpos.
+    rewrite (IH p x (Z.land flags f_strict) f Hok Hx1 Hx2 ltac:(lia) j), dee_res3.
+    destruct (Nat.ltb_spec j (length (enc p et x))).
+    + replace (j <? _)%nat with true by (symmetry; apply Nat.ltb_lt; lia). reflexivity.
+    + cbn [tbind]. replace (len (x :: es') - 1) with (len es') by (unfold len; cbn [length]; lia).
+      rewrite IHes; [| exact HF' | lia | eapply firstn_len_step; eauto].
+      destruct (Nat.ltb_spec (j - length (enc p et x)) (length (enc_elems p et es'))).
+      * replace (j <? _)%nat with true by (symmetry; apply Nat.ltb_lt; lia). reflexivity.
+      * replace (j <? _)%nat with false by (symmetry; apply Nat.ltb_ge; lia).
+        cbn [rev map]. rewrite <- app_assoc. cbn [app]. do 3 f_equal. lia.
+Qed.
+
+Lemma main_list et : mainP et -> mainP (ThList et).
+Proof.
+  intros IH p v flags fuel Hok Hwf Hn Hf. destruct v; try discriminate Hwf.
+  destruct fuel; [simpl in Hf; lia|]. cbn [ty_ok] in Hok. apply wf_list_inv in Hwf. destruct Hwf as [Hlen HF].
+  intros j rest. rewrite dec_list_eq, enc_list_eq in *. rewrite <- app_assoc. cbn [dval].
+  pose proof (type_of_range et) as Hty. unfold tlim in Hlen.
+  rewrite (r_list_spec p (len es) (type_of et) ltac:(unfold len in *; lia) ltac:(lia) j), tbind_res3.
+  rewrite app_length in *. pose proof (w_list_length p (len es) (type_of et)) as Hh.
+  destruct (Nat.ltb_spec j (length (w_list p (len es) (type_of et)))); [rewrite res3_lt by lia; reflexivity|].
+  cbv zeta. replace (type_of et =? c_TRUE) with false by (unfold c_TRUE; lia).
+  rewrite Z.eqb_refl. cbn [negb]. replace (len es <? 0) with false by (unfold len; lia).
+  cbn [tdepth] in Hf.
+  rewrite (lloop_spec fuel p et flags IH Hok es HF ltac:(lia)) by lia. cbn [rev app].
+  destruct (Nat.ltb_spec (j - length (w_list p (len es) (type_of et))) (length (enc_elems p et es))).
+  - rewrite res3_lt by lia. rewrite eofc_pos by lia. reflexivity.
+  - rewrite res3_ge by lia. do 3 f_equal. lia.
+Qed.
+
+(* ---------- sets ---------- *)
+Lemma key_facts kt v : is_key_ty kt = true -> tval_wf kt v = true -> dval kt v = v /\ nilp v = false /\ ty_ok kt = true.
+Proof.
+  intros Hk Hwf. destruct kt; try discriminate Hk; destruct v; try discriminate Hwf; repeat split.
+  cbn [tval_wf] in Hwf. destruct nonnil; [reflexivity | discriminate Hwf].
+Qed.
+Fixpoint sdist (kt : tty) (ks : list tval) : Prop :=
+  match ks with [] => True | x :: r => tval_wf kt x = true /\ (forall y, In y r -> tval_eqb x y = false) /\ sdist kt r end.
+Lemma not_existsb {A} (g : A -> bool) l : negb (existsb g l) = true -> forall y, In y l -> g y = false.
+Proof.
+  intros H y Hy. destruct (g y) eqn:E; [|reflexivity]. exfalso.
+  assert (existsb g l = true) by (apply existsb_exists; eauto). rewrite H0 in H. discriminate.
+Qed.
+Lemma wf_set_inv kt nn ks : tval_wf (ThSet kt) (TvSet nn ks) = true -> len ks < tlim /\ sdist kt ks.
+Proof.
+  cbn [tval_wf]. intros H. apply andb_true_iff in H. destruct H as [H H2]. apply andb_true_iff in H. destruct H as [H0 H1].
+  split; [apply Z.ltb_lt in H0; exact H0|]. clear H0 H1. induction ks as [|x r IH]; cbn [sdist]; [exact I|].
+  apply andb_true_iff in H2. destruct H2 as [H2 H3]. apply andb_true_iff in H2. destruct H2 as [Ha Hb].
+  split; [exact Ha|]. split; [apply not_existsb; exact Hb | apply IH; exact H3].
+Qed.
+Lemma set_add_new acc k : (forall a, In a acc -> tval_eqb a k = false) -> set_add acc k = acc ++ [k].
+Proof.
+  induction acc as [|a r IH]; intros H; [reflexivity|]. cbn [set_add]. rewrite (H a (or_introl eq_refl)).
+  cbn [app]. f_equal. apply IH. intros b Hb. apply H. right. exact Hb.
+Qed.
+
+Lemma stloop_spec f p kt flags : mainP kt -> is_key_ty kt = true -> forall ks, sdist kt ks ->
+  (length (enc_elems p kt ks) + tdepth kt <= f)%nat ->
+  forall K acc j rest, (forall a y, In a acc -> In y ks -> tval_eqb a y = false) ->
+  (length (firstn j (enc_elems p kt ks ++ rest)) < K)%nat ->
+  stloop f p kt flags K (len ks) acc (firstn j (enc_elems p kt ks ++ rest)) =
+    if (j <? length (enc_elems p kt ks))%nat then TErr EUnexpectedEOF
+    else TOk (TvSet true (acc ++ ks), firstn (j - length (enc_elems p kt ks)) rest).
+Proof.
+  intros IH Hkey ks. induction ks as [|x ks' IHks]; intros HD Hf K acc j rest Hacc HK.
+  - rewrite stloop_eq. cbn. rewrite app_nil_r, Nat.sub_0_r. reflexivity.
+  - rewrite stloop_eq. replace (len (x :: ks') <=? 0) with false by (unfold len; cbn [length]; lia).
+    destruct K as [|K']; [lia|]. cbn [sdist] in HD. destruct HD as [Hx1 [Hx3 HD']].
+    destruct (key_facts kt x Hkey Hx1) as [Hdv [Hx2 Hok]].
+    rewrite enc_elems_cons in *. rewrite app_length in *. rewrite <- app_assoc in *.
+    pose proof (enc_len_pos p kt x Hok Hx1 Hx2) as Hpos.
+    rewrite (IH p x (Z.land flags f_strict) f Hok Hx1 Hx2 ltac:(lia) j), dee_res3.
+    destruct (Nat.ltb_spec j (length (enc p kt x))).
+    + replace (j <? _)%nat with true by (symmetry; apply Nat.ltb_lt; lia). reflexivity.
+    + cbn [tbind]. replace (len (x :: ks') - 1) with (len ks') by (unfold len; cbn [length]; lia).
+      rewrite Hdv. rewrite set_add_new by (intros a Ha; apply Hacc; [exact Ha | left; reflexivity]).
+      rewrite IHks; [| exact HD' | lia | | eapply firstn_len_step; eauto].
+      * destruct (Nat.ltb_spec (j - length (enc p kt x)) (length (enc_elems p kt ks'))).
+        -- replace (j <? _)%nat with true by (symmetry; apply Nat.ltb_lt; lia). reflexivity.
+        -- replace (j <? _)%nat with false by (symmetry; apply Nat.ltb_ge; lia).
+           rewrite <- app_assoc. cbn [app]. do 3 f_equal. lia.
+      * intros a y Ha Hy. apply in_app_or in Ha. destruct Ha as [Ha|[Ha|[]]].
+        -- apply Hacc; [exact Ha | right; exact Hy].
+        -- subst a. apply Hx3. exact Hy.
+Qed.
+
+Lemma main_set kt : mainP kt -> mainP (ThSet kt).
+Proof.
+  intros IH p v flags fuel Hok Hwf Hn Hf. destruct v; try discriminate Hwf.
+  destruct fuel; [simpl in Hf; lia|]. cbn [ty_ok] in Hok. apply wf_set_inv in Hwf. destruct Hwf as [Hlen HD].
+  intros j rest. rewrite dec_set_eq, enc_set_eq in *. rewrite <- app_assoc. cbn [dval].
+  pose proof (type_of_range kt) as Hty. unfold tlim in Hlen.
+  rewrite (r_list_spec p (len ks) (type_of kt) ltac:(unfold len in *; lia) ltac:(lia) j), tbind_res3.
+  rewrite app_length in *. pose proof (w_list_length p (len ks) (type_of kt)) as Hh.
+  destruct (Nat.ltb_spec j (length (w_list p (len ks) (type_of kt)))); [rewrite res3_lt by lia; reflexivity|].
+  cbv zeta. replace (type_of kt =? c_TRUE) with false by (unfold c_TRUE; lia).
+  rewrite Z.eqb_refl. cbn [negb]. replace (len ks <? 0) with false by (unfold len; lia).
+  destruct (len ks =? 0) eqn:E0.
+  - destruct ks; [|unfold len in E0; cbn [length] in E0; lia]. cbn [enc_elems app length].
+    rewrite res3_ge by lia. do 3 f_equal. lia.
+  - cbn [tdepth] in Hf.
+    rewrite (stloop_spec fuel p kt flags IH Hok ks HD ltac:(lia)); [ | intros a y [] | lia]. cbn [app].
+    destruct (Nat.ltb_spec (j - length (w_list p (len ks) (type_of kt))) (length (enc_elems p kt ks))).
+    + rewrite res3_lt by lia. rewrite eofc_pos by lia. reflexivity.
+    + rewrite res3_ge by lia. do 3 f_equal. lia.
+Qed.
+
+(* ---------- maps ---------- *)
+Fixpoint mdist (kt vt : tty) (es : list (tval * tval)) : Prop :=
+  match es with
+  | [] => True
+  | kx :: r => tval_wf kt (fst kx) = true /\ tval_wf vt (snd kx) = true /\ nilp (snd kx) = false /\
+               (forall kv, In kv r -> tval_eqb (fst kx) (fst kv) = false) /\ mdist kt vt r
+  end.
+Lemma wf_map_inv kt vt nn es : tval_wf (ThMap kt vt) (TvMap nn es) = true -> len es < tlim /\ mdist kt vt es.
+Proof.
+  cbn [tval_wf]. intros H. apply andb_true_iff in H. destruct H as [H H2]. apply andb_true_iff in H. destruct H as [H0 H1].
+  split; [apply Z.ltb_lt in H0; exact H0|]. clear H0 H1. induction es as [|[k x] r IH]; cbn [mdist]; [exact I|].
+  apply andb_true_iff in H2. destruct H2 as [H2 H3]. apply andb_true_iff in H2. destruct H2 as [H2 Hd].
+  apply andb_true_iff in H2. destruct H2 as [H2 Hc]. apply andb_true_iff in H2. destruct H2 as [Ha Hb].
+  cbn [fst snd]. repeat split; try assumption.
+  - unfold nilp. destruct (match x with TvPtr None => true | _ => false end); [discriminate|reflexivity].
+  - apply (not_existsb (fun kv => tval_eqb k (fst kv))). exact Hd.
+  - apply IH. exact H3.
+Qed.
+Lemma map_set_new acc k y : (forall a, In a acc -> tval_eqb (fst a) k = false) -> map_set acc k y = acc ++ [(k, y)].
+Proof.
+  induction acc as [|[a b] r IH]; intros H; [reflexivity|]. cbn [map_set]. rewrite (H (a, b) (or_introl eq_refl) : tval_eqb a k = false).
+  cbn [app]. f_equal. apply IH. intros c Hc. apply H. right. exact Hc.
+Qed.
+
+Definition dpair (vt : tty) (kx : tval * tval) : tval * tval := (fst kx, dval vt (snd kx)).
+Lemma mloop_spec f p kt vt flags : mainP kt -> mainP vt -> is_key_ty kt = true -> ty_ok vt = true -> forall es, mdist kt vt es ->
+  (length (enc_pairs p kt vt es) + Nat.max (tdepth kt) (tdepth vt) <= f)%nat ->
+  forall K acc j rest, (forall a kv, In a acc -> In kv es -> tval_eqb (fst a) (fst kv) = false) ->
+  (length (firstn j (enc_pairs p kt vt es ++ rest)) < K)%nat ->
+  mloop f p kt vt flags K (len es) acc (firstn j (enc_pairs p kt vt es ++ rest)) =
+    if (j <? length (enc_pairs p kt vt es))%nat then TErr EUnexpectedEOF
+    else TOk (TvMap true (acc ++ map (dpair vt) es), firstn (j - length (enc_pairs p kt vt es)) rest).
+Proof.
+  intros IHk IHv Hkey Hokv es. induction es as [|[k x] es' IHes]; intros HD Hf K acc j rest Hacc HK.
+  - rewrite mloop_eq. cbn. rewrite app_nil_r, Nat.sub_0_r. reflexivity.
+  - rewrite mloop_eq. replace (len ((k, x) :: es') <=? 0) with false by (unfold len; cbn [length]; lia).
+    destruct K as [|K']; [lia|]. cbn [mdist fst snd] in HD. destruct HD as [Hk1 [Hx1 [Hx2 [Hk3 HD']]]].
+    destruct (key_facts kt k Hkey Hk1) as [Hdv [Hk2 Hokk]].
+    rewrite enc_pairs_cons in *. rewrite !app_length in *. rewrite <- !app_assoc in *.
+    pose proof (enc_len_pos p kt k Hokk Hk1 Hk2) as Hposk.
+    pose proof (enc_len_pos p vt x Hokv Hx1 Hx2) as Hposx.
+    rewrite (IHk p k (Z.land flags f_strict) f Hokk Hk1 Hk2 ltac:(lia) j), dee_res3.
+    destruct (Nat.ltb_spec j (length (enc p kt k))).
+    + replace (j <? _)%nat with true by (symmetry; apply Nat.ltb_lt; lia). reflexivity.
+    + cbn [tbind].
+      rewrite (IHv p x (Z.land flags f_strict) f Hokv Hx1 Hx2 ltac:(lia) (j - length (enc p kt k))%nat), dee_res3.
+      destruct (Nat.ltb_spec (j - length (enc p kt k)) (length (enc p vt x))).
+      * replace (j <? _)%nat with true by (symmetry; apply Nat.ltb_lt; lia). reflexivity.
+      * cbn [tbind]. replace (len ((k, x) :: es') - 1) with (len es') by (unfold len; cbn [length]; lia).
+        rewrite Hdv. rewrite map_set_new by (intros a Ha; apply (Hacc a (k, x)); [exact Ha | left; reflexivity]).
+        rewrite IHes; [| exact HD' | lia | | ].
+        -- destruct (Nat.ltb_spec (j - length (enc p kt k) - length (enc p vt x)) (length (enc_pairs p kt vt es'))).
+           ++ replace (j <? _)%nat with true by (symmetry; apply Nat.ltb_lt; lia). reflexivity.
+           ++ replace (j <? _)%nat with false by (symmetry; apply Nat.ltb_ge; lia).
+              rewrite <- app_assoc. cbn [app map]. unfold dpair at 2. cbn [fst snd]. do 3 f_equal. lia.
+        -- intros a kv Ha Hkv. apply in_app_or in Ha. destruct Ha as [Ha|[Ha|[]]].
+           ++ apply Hacc; [exact Ha | right; exact Hkv].
+           ++ subst a. cbn [fst]. apply Hk3. exact Hkv.
+        -- revert HK. rewrite !firstn_length, !app_length. lia.
+Qed.
+
+Lemma main_map kt vt : mainP kt -> mainP vt -> mainP (ThMap kt vt).
+Proof.
+  intros IHk IHv p v flags fuel Hok Hwf Hn Hf. destruct v; try discriminate Hwf.
+  destruct fuel; [simpl in Hf; lia|]. cbn [ty_ok] in Hok.
+  apply andb_true_iff in Hok. destruct Hok as [Hok _]. apply andb_true_iff in Hok. destruct Hok as [Hkey Hokv].
+  apply wf_map_inv in Hwf. destruct Hwf as [Hlen HD].
+  intros j rest. rewrite dec_map_eq, enc_map_eq in *. rewrite <- app_assoc. cbn [dval].
+  pose proof (type_of_range kt) as Htk. pose proof (type_of_range vt) as Htv. unfold tlim in Hlen.
+  rewrite (r_map_spec p (len es) (type_of kt) (type_of vt) ltac:(unfold len in *; lia) ltac:(lia) ltac:(lia) j), tbind_res3.
+  rewrite app_length in *. pose proof (w_map_length p (len es) (type_of kt) (type_of vt)) as Hh.
+  destruct (Nat.ltb_spec j (length (w_map p (len es) (type_of kt) (type_of vt)))); [rewrite res3_lt by lia; reflexivity|].
+  destruct (len es =? 0) eqn:E0.
+  - destruct es; [|unfold len in E0; cbn [length] in E0; lia].
+    replace (map_res p (len []) (type_of kt) (type_of vt)) with (0, (if p then type_of kt else 0), (if p then type_of vt else 0)) by (destruct p; reflexivity).
+    cbn [enc_pairs app length map]. unfold len in *. cbn [length Z.of_nat] in *. cbn.
+    rewrite res3_ge by lia. do 3 f_equal. lia.
+  - replace (map_res p (len es) (type_of kt) (type_of vt)) with (len es, type_of kt, type_of vt) by (unfold map_res; rewrite E0; destruct p; reflexivity).
+    cbv iota beta. rewrite E0. replace (len es <? 0) with false by (unfold len; lia). rewrite !Z.eqb_refl. cbn [negb].
+    cbn [tdepth] in Hf.
+    rewrite (mloop_spec fuel p kt vt flags IHk IHv Hkey Hokv es HD ltac:(lia)); [ | intros a y [] | lia]. cbn [app].
+    change (fun kx : tval * tval => (fst kx, dval vt (snd kx))) with (dpair vt).
+    destruct (Nat.ltb_spec (j - length (w_map p (len es) (type_of kt) (type_of vt))) (length (enc_pairs p kt vt es))).
+    + rewrite res3_lt by lia. rewrite eofc_pos by lia. reflexivity.
+    + rewrite res3_ge by lia. do 3 f_equal. lia.
+Qed.
+
+(* ====================================================================== *)
+(* ---------- sorting ---------- *)
+Fixpoint asc (lo : Z) (l : list Z) : Prop := match l with [] => True | a :: r => lo < a /\ asc a r end.
+Lemma asc_weaken l : forall lo lo', lo' <= lo -> asc lo l -> asc lo' l.
+Proof. destruct l; intros lo lo' H Ha; [exact I|]. cbn [asc] in *. destruct Ha. split; [lia | assumption]. Qed.
+Lemma asc_notin l : forall lo, asc lo l -> forall x, x <= lo -> ~ In x l.
+Proof.
+  induction l as [|a r IH]; intros lo Ha x Hx Hin; [exact Hin|]. cbn [asc] in Ha. destruct Ha as [H1 H2].
+  destruct Hin as [->|Hin]; [lia|]. apply (IH a H2 x); [lia | exact Hin].
+Qed.
+
+Section Sort.
+Context {A : Type}.
+Definition eid (e : tfield * A) : Z := fld_id (fst e).
+Lemma insert_in (x : tfield * A) l e : In e (insert_by_id x l) <-> e = x \/ In e l.
+Proof.
+  induction l as [|y r IH]; cbn [insert_by_id].
+  - cbn. intuition.
+  - destruct (_ <=? _); cbn [In]; [rewrite IH|]; intuition.
+Qed.
+Lemma insert_asc (x : tfield * A) l : forall lo, asc lo (map eid l) -> lo < eid x -> ~ In (eid x) (map eid l) ->
+  asc lo (map eid (insert_by_id x l)).
+Proof.
+  induction l as [|y r IH]; intros lo Ha Hlo Hn; cbn [insert_by_id].
+  - cbn. auto.
+  - cbn [map asc] in Ha. destruct Ha as [H1 H2]. cbn [map In] in Hn.
+    destruct (fld_id (fst y) <=? fld_id (fst x)) eqn:E.
+    + cbn [map asc]. split; [exact H1|]. apply IH; [exact H2 | unfold eid in *; lia | tauto].
+    + cbn [map asc]. unfold eid in *. repeat split; try lia. exact H2.
+Qed.
+Lemma sort_fold (l : list (tfield * A)) : forall acc lo,
+  asc lo (map eid acc) -> NoDup (map eid l) -> (forall e, In e l -> ~ In (eid e) (map eid acc)) -> (forall e, In e l -> lo < eid e) ->
+  asc lo (map eid (fold_left (fun acc x => insert_by_id x acc) l acc)) /\
+  (forall e, In e (fold_left (fun acc x => insert_by_id x acc) l acc) <-> In e acc \/ In e l).
+Proof.
+  induction l as [|x r IH]; intros acc lo Ha Hnd Hnin Hlo; cbn [fold_left].
+  - split; [exact Ha|]. intros e. cbn. tauto.
+  - cbn [map] in Hnd. inversion Hnd as [|? ? Hx Hnd']; subst.
+    destruct (IH (insert_by_id x acc) lo) as [H1 H2].
+    + apply insert_asc; [exact Ha | apply Hlo; left; reflexivity | apply Hnin; left; reflexivity].
+    + exact Hnd'.
+    + intros e He Hin. apply in_map_iff in Hin. destruct Hin as [e' [He' Hin]]. apply insert_in in Hin. destruct Hin as [->|Hin].
+      * apply Hx. rewrite He'. apply in_map. exact He.
+      * apply (Hnin e (or_intror He)). rewrite <- He'. apply in_map. exact Hin.
+    + intros e He. apply Hlo. right. exact He.
+    + split; [exact H1|]. intros e. rewrite H2, insert_in. cbn [In]. intuition.
+Qed.
+Lemma sort_by_id_spec (l : list (tfield * A)) lo : NoDup (map eid l) -> (forall e, In e l -> lo < eid e) ->
+  asc lo (map eid (sort_by_id l)) /\ (forall e, In e (sort_by_id l) <-> In e l).
+Proof.
+  intros Hnd Hlo. destruct (sort_fold l [] lo) as [H1 H2]; auto.
+  - exact I.
+  - split; [exact H1|]. intros e. unfold sort_by_id. rewrite H2. cbn. tauto.
+Qed.
+End Sort.
+
+Lemma distinctZ_NoDup l : distinctZ l = true -> NoDup l.
+Proof.
+  induction l as [|x r IH]; intros H; constructor; cbn [distinctZ] in H; apply andb_true_iff in H; destruct H as [H1 H2].
+  - intros Hin. assert (existsb (Z.eqb x) r = true) by (apply existsb_exists; exists x; split; [exact Hin | apply Z.eqb_refl]).
+    rewrite H in H1. discriminate.
+  - apply IH. exact H2.
+Qed.
+
+Lemma mk_encs_ids p fs : forall vs, length vs = length fs -> map eid (mk_encs p fs vs) = map fld_id fs.
+Proof.
+  induction fs as [|f fr IH]; intros [|x vr] H; try discriminate H; [reflexivity|].
+  rewrite mk_encs_cons. cbn [map]. rewrite IH by (cbn in H; lia). reflexivity.
+Qed.
+Lemma mk_encs_in p fs : forall vs e, In e (mk_encs p fs vs) ->
+  exists i, nth_error fs i = Some (fst e) /\ nth_error vs i = Some (fst (snd e)) /\ snd (snd e) = fbody p (fst e) (fst (snd e)).
+Proof.
+  induction fs as [|f fr IH]; intros [|x vr] e H; try contradiction H.
+  rewrite mk_encs_cons in H. destruct H as [<-|H].
+  - exists O. repeat split.
+  - destruct (IH vr e H) as [i Hi]. exists (S i). exact Hi.
+Qed.
+Lemma mk_encs_nth p fs : forall vs i f x, nth_error fs i = Some f -> nth_error vs i = Some x -> In (f, (x, fbody p f x)) (mk_encs p fs vs).
+Proof.
+  induction fs as [|f0 fr IH]; intros [|x0 vr] [|i] f x Hf Hx; try discriminate.
+  - cbn in Hf, Hx. inversion Hf; inversion Hx; subst. rewrite mk_encs_cons. left. reflexivity.
+  - rewrite mk_encs_cons. right. eapply IH; eauto.
+Qed.
+
+(* ---------- bitset bounds, lookup ---------- *)
+Lemma min_fold l : forall m, (forall x, In x l -> 1 <= x) -> (m = 0 \/ 1 <= m) ->
+  (forall x, In x l -> fold_left (fun m i => if (i <? m) || (m =? 0) then i else m) l m <= x) /\
+  (1 <= m -> fold_left (fun m i => if (i <? m) || (m =? 0) then i else m) l m <= m).
+Proof.
+  induction l as [|a r IH]; intros m Hl Hm; cbn [fold_left].
+  - split; [intros x []| lia].
+  - assert (Ha : 1 <= a) by (apply Hl; left; reflexivity).
+    set (m' := if (a <? m) || (m =? 0) then a else m).
+    assert (Hm' : 1 <= m' /\ m' <= a /\ (1 <= m -> m' <= m)) by (unfold m'; destruct ((a <? m) || (m =? 0)) eqn:E; lia).
+    destruct (IH m' (fun x Hx => Hl x (or_intror Hx)) (or_intror (proj1 Hm'))) as [H1 H2].
+    split.
+    + intros x [<-|Hx]; [specialize (H2 (proj1 Hm')); lia | apply H1; exact Hx].
+    + intros Hm1. specialize (H2 (proj1 Hm')). destruct Hm' as [_ [_ H3]]. specialize (H3 Hm1). lia.
+Qed.
+Lemma max_fold l : forall m, m <= fold_left Z.max l m /\ (forall x, In x l -> x <= fold_left Z.max l m).
+Proof.
+  induction l as [|a r IH]; intros m; cbn [fold_left].
+  - split; [lia | intros x []].
+  - destruct (IH (Z.max m a)) as [H1 H2]. split; [lia|]. intros x [<-|Hx]; [lia | apply H2; exact Hx].
+Qed.
+Lemma slot_bounds fs id : (forall x, In x (map fld_id fs) -> 1 <= x) -> In id (map fld_id fs) ->
+  s_minID fs <= id <= s_maxID fs.
+Proof.
+  intros H Hin. unfold s_minID, s_maxID. split.
+  - apply (proj1 (min_fold (map fld_id fs) 0 H (or_introl eq_refl))). exact Hin.
+  - apply (proj2 (max_fold (map fld_id fs) 0)). exact Hin.
+Qed.
+
+Definition uniq_at (fs : list tfield) (i : nat) (id : Z) : Prop :=
+  forall i' fd', nth_error fs i' = Some fd' -> fld_id fd' = id -> i' = i.
+Lemma lookup_go_found fs : forall k i fd, nth_error fs i = Some fd -> uniq_at fs i (fld_id fd) ->
+  lookup_go (fld_id fd) fs k = Some ((k + i)%nat, fd).
+Proof.
+  induction fs as [|a r IH]; intros k i fd Hn Hu; [destruct i; discriminate|].
+  rewrite lookup_go_cons. destruct i as [|i].
+  - cbn in Hn. inversion Hn; subst. rewrite Z.eqb_refl, Nat.add_0_r. reflexivity.
+  - cbn in Hn. destruct (Z.eqb_spec (fld_id a) (fld_id fd)) as [E|E].
+    + specialize (Hu O a eq_refl E). discriminate.
+    + rewrite (IH (S k) i fd Hn). * f_equal. f_equal. lia.
+      * intros i' fd' H1 H2. specialize (Hu (S i') fd' H1 H2). lia.
+Qed.
+Lemma NoDup_uniq fs i fd : NoDup (map fld_id fs) -> nth_error fs i = Some fd -> uniq_at fs i (fld_id fd).
+Proof.
+  intros Hnd Hn i' fd' Hn' Hid.
+  apply (proj1 (NoDup_nth_error (map fld_id fs)) Hnd).
+  - rewrite map_length. apply nth_error_Some. rewrite Hn'. discriminate.
+  - rewrite !nth_error_map, Hn, Hn'. cbn. rewrite Hid. reflexivity.
+Qed.
+
+(* ---------- one field body ---------- *)
+Definition fgood (fd : tfield) (x : tval) : Prop :=
+  1 <= fld_id fd < 2 ^ 15 /\ ty_ok (fld_ty fd) = true /\ tval_wf (fld_ty fd) x = true /\
+  (has_flag (fld_flags fd) f_enum = true -> fld_ty fd = ThI32) /\
+  (has_flag (fld_flags fd) f_required = true -> nilp x = false) /\ mainP (fld_ty fd).
+
+Lemma fdec_spec f p fd x fl : fgood fd x -> nilp x = false -> (length (fbody p fd x) + tdepth (fld_ty fd) <= f)%nat ->
+  rspec (fdec f p fd fl (zero_of (fld_ty fd))) (fbody p fd x) (dval (fld_ty fd) x).
+Proof.
+  intros [Hid [Hok [Hwf [Hen [_ IH]]]]] Hn Hf. destruct fd as [id fl0 ft]. unfold fdec, fbody in *. cbn [fld_flags fld_ty] in *.
+  destruct (has_flag fl0 f_enum) eqn:E.
+  - rewrite (Hen eq_refl) in *. destruct x; try discriminate Hwf. cbn [tval_wf] in Hwf.
+    rewrite s32_id in * by lia. cbn [dval].
+    intros j rest. rewrite (r_i32_spec p z ltac:(lia) j rest), tbind_res3. unfold res3. destruct (j <? _)%nat; reflexivity.
+  - apply IH; assumption.
+Qed.
+
+Lemma bool_field ft x : ty_ok ft = true -> type_of ft = c_BOOL -> tval_wf ft x = true -> nilp x = false ->
+  wrap_ptrs ft (TvBool ((if deref_bool x then c_TRUE else c_BOOL) =? c_TRUE)) = dval ft x.
+Proof.
+  intros Hok Hty Hwf Hn. destruct ft; try discriminate Hty.
+  - destruct x; try discriminate Hwf. destruct b; reflexivity.
+  - cbn [ty_ok] in Hok. apply andb_true_iff in Hok. destruct Hok as [_ Hnp]. cbn [type_of] in Hty.
+    destruct ft; try discriminate Hty; try discriminate Hnp.
+    destruct x; try discriminate Hwf. destruct o; [|discriminate Hn]. cbn [tval_wf] in Hwf.
+    destruct t; try discriminate Hwf. destruct b; reflexivity.
+Qed.
+
+(* ====================================================================== *)
+Lemma sloop_err_hdr nf j : 0 <= nf ->
+  @TErr (tval * bytes) (if (nf >? 0) && (match eofc j with EEOF => true | _ => false end) then EUnexpectedEOF else eofc j) =
+  TErr (if (nf =? 0) && (j =? 0)%nat then EEOF else EUnexpectedEOF).
+Proof.
+  intros H. unfold eofc. destruct j; cbn [Nat.eqb]; destruct (nf =? 0) eqn:E1; destruct (nf >? 0) eqn:E2; try reflexivity; lia.
+Qed.
+
+Lemma sloop_written f p fs flags i fd x cur last :
+  nth_error fs i = Some fd -> uniq_at fs i (fld_id fd) ->
+  (forall y, In y (map fld_id fs) -> 1 <= y) ->
+  fgood fd x -> nilp x = false ->
+  0 <= last < fld_id fd ->
+  nth i cur (zero_of (fld_ty fd)) = zero_of (fld_ty fd) ->
+  let ty := type_of (fld_ty fd) in
+  let wty := if coalesce p ty && deref_bool x then c_TRUE else ty in
+  let B := if coalesce p ty then [] else fbody p fd x in
+  (length B + tdepth (fld_ty fd) <= f)%nat ->
+  forall K' j R nf seen, 0 <= nf ->
+  sloop f p fs flags (S K') (firstn j (fhdr p last (fld_id fd) wty ++ B ++ R)) last nf cur seen =
+    if (j <? length (fhdr p last (fld_id fd) wty) + length B)%nat
+    then TErr (if (nf =? 0) && (j =? 0)%nat then EEOF else EUnexpectedEOF)
+    else sloop f p fs flags K' (firstn (j - (length (fhdr p last (fld_id fd) wty) + length B)) R) (fld_id fd) (nf + 1)
+           (set_nth cur i (dval (fld_ty fd) x)) ((fld_id fd - s_minID fs) :: seen).
+Proof.
+  intros Hn Hu Hids Hg Hnil Hlast Hold ty wty B Hf K' j R nf seen Hnf.
+  pose proof Hg as [Hid [Hok [Hwf [Hen [Hreq IH]]]]].
+  assert (Hty : 2 <= ty <= 12) by apply type_of_range.
+  assert (Hwty : 1 <= wty <= 12) by (unfold wty, c_TRUE; destruct (_ && _); lia).
+  assert (Hin : In (fld_id fd) (map fld_id fs)) by (apply in_map; eapply nth_error_In; eauto).
+  pose proof (slot_bounds fs (fld_id fd) Hids Hin) as Hsb.
+  pose proof (fhdr_length p last (fld_id fd) wty) as Hhl.
+  rewrite sloop_S.
+  rewrite (r_field_spec p last (fld_id fd) wty Hlast ltac:(lia) Hwty j (B ++ R)).
+  destruct (Nat.ltb_spec j (length (fhdr p last (fld_id fd) wty))) as [Hj|Hj].
+  { rewrite res3_lt by lia. replace (j <? _ + _)%nat with true by (symmetry; apply Nat.ltb_lt; lia).
+    apply sloop_err_hdr; exact Hnf. }
+  rewrite res3_ge by lia.
+  pose proof (fhdr_res_id p last (fld_id fd) wty Hlast ltac:(lia)) as Hres.
+  destruct (fhdr_res p last (fld_id fd) wty) as [[rid rty] isd]. destruct Hres as [Hrid Hrty]. subst rty.
+  cbv iota beta. replace (wty =? c_STOP) with false by (unfold c_STOP; lia).
+  cbv zeta. rewrite Hrid.
+  replace ((fld_id fd - s_minID fs <? 0) || (fld_id fd - s_minID fs >=? s_maxID fs - s_minID fs + 1)) with false by lia.
+  rewrite (lookup_go_found fs O i fd Hn Hu). cbn [Nat.add]. cbv iota beta.
+  replace (_ / 64 >=? _ / 64 + 1) with false by (symmetry; rewrite Z.geb_leb; apply Z.leb_gt; dmlia).
+  fold ty. unfold wty, B in *. clear wty B. destruct (coalesce p ty) eqn:Ec.
+  - destruct p; [discriminate Ec|]. cbn [coalesce] in Ec. assert (Ety : ty = c_BOOL) by lia.
+    cbn [andb is_compact app length] in *.
+    rewrite Ety in *.
+    replace (negb ((if deref_bool x then c_TRUE else c_BOOL) =? c_BOOL) && negb (((if deref_bool x then c_TRUE else c_BOOL) =? c_TRUE) && (c_BOOL =? c_BOOL))) with false by (destruct (deref_bool x); reflexivity).
+    replace (((if deref_bool x then c_TRUE else c_BOOL) =? c_TRUE) || ((if deref_bool x then c_TRUE else c_BOOL) =? c_BOOL)) with true by (destruct (deref_bool x); reflexivity).
+    rewrite (bool_field (fld_ty fd) x Hok Ety Hwf Hnil).
+    rewrite Nat.add_0_r. replace (j <? _)%nat with false by (symmetry; apply Nat.ltb_ge; lia). reflexivity.
+  - cbn [andb] in *. rewrite Z.eqb_refl. cbn [negb andb].
+    replace (is_compact p && ((ty =? c_TRUE) || (ty =? c_BOOL))) with false.
+    2:{ destruct p; [reflexivity|]. cbn [coalesce] in Ec. rewrite Ec. replace (ty =? c_TRUE) with false by (unfold c_TRUE; lia). reflexivity. }
+    rewrite Hold.
+    rewrite (fdec_spec f p fd x (Z.lor (Z.land flags f_strict) (fld_flags fd)) Hg Hnil Hf (j - length (fhdr p last (fld_id fd) ty))%nat R), dee_res3.
+    destruct (Nat.ltb_spec (j - length (fhdr p last (fld_id fd) ty)) (length (fbody p fd x))).
+    + replace (j <? _ + _)%nat with true by (symmetry; apply Nat.ltb_lt; lia). cbn [tbind].
+      replace (j =? 0)%nat with false by (symmetry; apply Nat.eqb_neq; lia). rewrite andb_false_r. reflexivity.
+    + replace (j <? _ + _)%nat with false by (symmetry; apply Nat.ltb_ge; lia). cbn [tbind].
+      do 2 f_equal. lia.
+Qed.
+
+(* ---------- the decoded slots ---------- *)
+Lemma set_nth_same l : forall i (v : tval), nth_error l i = Some v -> set_nth l i v = l.
+Proof.
+  induction l as [|a r IH]; intros [|i] v H; try discriminate H.
+  - cbn in H. inversion H. reflexivity.
+  - cbn in H. cbn [set_nth]. rewrite IH by exact H. reflexivity.
+Qed.
+Lemma cur_of_length rem fs : forall vs, length vs = length fs -> length (cur_of rem fs vs) = length fs.
+Proof. induction fs as [|a r IH]; intros [|y vr] H; try discriminate H; [reflexivity|]. cbn [cur_of length]. rewrite IH by (cbn in H; lia). reflexivity. Qed.
+Lemma cur_of_nth_error rem fs : forall vs i fd x, nth_error fs i = Some fd -> nth_error vs i = Some x ->
+  nth_error (cur_of rem fs vs) i = Some (if existsb (Z.eqb (fld_id fd)) rem || fskip fd x then zero_of (fld_ty fd) else dval (fld_ty fd) x).
+Proof.
+  induction fs as [|a r IH]; intros [|y vr] [|i] fd x Hf Hx; try discriminate.
+  - cbn in Hf, Hx. inversion Hf; inversion Hx; subst. reflexivity.
+  - cbn in Hf, Hx. cbn [cur_of nth_error]. apply IH; assumption.
+Qed.
+Lemma cur_of_irrel id rem fs : forall vs, (forall fd, In fd fs -> fld_id fd <> id) -> cur_of (id :: rem) fs vs = cur_of rem fs vs.
+Proof.
+  induction fs as [|a r IH]; intros [|y vr] H; try reflexivity. cbn [cur_of existsb].
+  replace (fld_id a =? id) with false by (symmetry; apply Z.eqb_neq; apply H; left; reflexivity). cbn [orb].
+  rewrite IH by (intros fd Hfd; apply H; right; exact Hfd). reflexivity.
+Qed.
+Lemma cur_of_step id rem fs : forall vs i fd x, nth_error fs i = Some fd -> nth_error vs i = Some x -> fld_id fd = id -> uniq_at fs i id ->
+  set_nth (cur_of (id :: rem) fs vs) i (if existsb (Z.eqb id) rem || fskip fd x then zero_of (fld_ty fd) else dval (fld_ty fd) x) = cur_of rem fs vs.
+Proof.
+  induction fs as [|a r IH]; intros [|y vr] [|i] fd x Hf Hx Hid Hu; try discriminate.
+  - cbn in Hf, Hx. inversion Hf; inversion Hx; subst. cbn [cur_of set_nth]. f_equal.
+    apply cur_of_irrel. intros fd' Hin Heq. apply In_nth_error in Hin. destruct Hin as [k Hk].
+    specialize (Hu (S k) fd' Hk Heq). discriminate.
+  - cbn in Hf, Hx. cbn [cur_of set_nth existsb].
+    replace (fld_id a =? id) with false.
+    2:{ symmetry. apply Z.eqb_neq. intros Heq. specialize (Hu O a eq_refl Heq). discriminate. }
+    cbn [orb]. f_equal. apply IH; try assumption.
+    intros i' fd' H1 H2. specialize (Hu (S i') fd' H1 H2). lia.
+Qed.
+Lemma cur_of_skip rem fs vs i fd x : nth_error fs i = Some fd -> nth_error vs i = Some x -> uniq_at fs i (fld_id fd) -> fskip fd x = true ->
+  cur_of (fld_id fd :: rem) fs vs = cur_of rem fs vs.
+Proof.
+  intros Hf Hx Hu Hs. rewrite <- (cur_of_step (fld_id fd) rem fs vs i fd x Hf Hx eq_refl Hu). rewrite Hs, orb_true_r.
+  symmetry. apply set_nth_same. rewrite (cur_of_nth_error _ fs vs i fd x Hf Hx). rewrite Hs, orb_true_r. reflexivity.
+Qed.
+Lemma cur_of_all rem fs : forall vs, length vs = length fs -> (forall fd, In fd fs -> In (fld_id fd) rem) -> cur_of rem fs vs = zero_fields fs.
+Proof.
+  induction fs as [|[id fl ft] r IH]; intros [|y vr] H Hin; try discriminate H; [reflexivity|].
+  cbn [cur_of zero_fields fld_id fld_ty].
+  replace (existsb (Z.eqb id) rem) with true.
+  2:{ symmetry. apply existsb_exists. exists id. split; [apply (Hin (TField id fl ft)); left; reflexivity | apply Z.eqb_refl]. }
+  cbn [orb]. f_equal. apply IH; [cbn in H; lia|]. intros fd Hfd. apply Hin. right. exact Hfd.
+Qed.
+
+Lemma Forall2_nth_error {A B} (P : A -> B -> Prop) l1 : forall l2 i a b, Forall2 P l1 l2 -> nth_error l1 i = Some a -> nth_error l2 i = Some b -> P a b.
+Proof.
+  induction l1 as [|x r IH]; intros l2 i a b HF H1 H2; [destruct i; discriminate|].
+  inversion HF; subst. destruct i; cbn in H1, H2.
+  - inversion H1; inversion H2; subst. assumption.
+  - eapply IH; eauto.
+Qed.
+Lemma Forall2_in_l {A B} (P : A -> B -> Prop) l1 : forall l2 a, Forall2 P l1 l2 -> In a l1 -> exists b, P a b.
+Proof.
+  induction l1 as [|x r IH]; intros l2 a HF Hin; [contradiction|]. inversion HF; subst.
+  destruct Hin as [<-|Hin]; [eauto | eapply IH; eauto].
+Qed.
+Lemma existsb_false {A} (g : A -> bool) l : (forall x, In x l -> g x = false) -> existsb g l = false.
+Proof.
+  induction l as [|a r IH]; intros H; [reflexivity|]. cbn [existsb]. rewrite (H a (or_introl eq_refl)), IH; [reflexivity|].
+  intros x Hx. apply H. right. exact Hx.
+Qed.
+
+Lemma sloop_spec f p fs vs0 flags D :
+  NoDup (map fld_id fs) -> Forall2 fgood fs vs0 -> (forall fd, In fd fs -> (tdepth (fld_ty fd) <= D)%nat) ->
+  forall l last K nf seen j rest,
+  (forall e, In e l -> exists i, nth_error fs i = Some (fst e) /\ nth_error vs0 i = Some (fst (snd e)) /\ snd (snd e) = fbody p (fst e) (fst (snd e))) ->
+  asc last (map eid l) -> 0 <= last -> 0 <= nf ->
+  (forall fd, In fd fs -> has_flag (fld_flags fd) f_required = true -> In (fld_id fd) (map eid l) \/ In (fld_id fd - s_minID fs) seen) ->
+  (length (enc_go p l last) <= K)%nat -> (length (enc_go p l last) + D <= f)%nat ->
+  sloop f p fs flags K (firstn j (enc_go p l last ++ rest)) last nf (cur_of (map eid l) fs vs0) seen =
+    if (j <? length (enc_go p l last))%nat then TErr (if (nf =? 0) && (j =? 0)%nat then EEOF else EUnexpectedEOF)
+    else TOk (TvStruct (cur_of [] fs vs0), firstn (j - length (enc_go p l last)) rest).
+Proof.
+  intros Hnd HF HD.
+  assert (Hids : forall y, In y (map fld_id fs) -> 1 <= y).
+  { intros y Hy. apply in_map_iff in Hy. destruct Hy as [fd [<- Hfd]]. destruct (Forall2_in_l _ _ _ _ HF Hfd) as [b Hb]. destruct Hb as [Hb _]. lia. }
+  induction l as [|[fd [x body]] l' IHl]; intros last K nf seen j rest Hent Hasc Hlast Hnf Hseen HK Hf.
+  - rewrite enc_go_nil in *. pose proof (stop_length p) as Hsl. destruct K as [|K']; [lia|].
+    rewrite sloop_S, (r_field_stop_spec p j rest).
+    destruct (Nat.ltb_spec j (length (w_field p 0 c_STOP))).
+    + rewrite res3_lt by lia. apply sloop_err_hdr. exact Hnf.
+    + rewrite res3_ge by lia. cbv iota beta. change (0 =? c_STOP) with true. cbv iota.
+      replace (smissing fs seen) with false; [reflexivity|].
+      symmetry. apply existsb_false. intros fd Hfd. destruct (has_flag (fld_flags fd) f_required) eqn:Er; [|reflexivity].
+      destruct (Hseen fd Hfd Er) as [[]|Hin]. cbn [andb].
+      replace (existsb (Z.eqb (fld_id fd - s_minID fs)) seen) with true; [reflexivity|].
+      symmetry. apply existsb_exists. exists (fld_id fd - s_minID fs). split; [exact Hin | apply Z.eqb_refl].
+  - destruct (Hent _ (or_introl eq_refl)) as [i [Hi1 [Hi2 Hi3]]]. cbn [fst snd] in Hi1, Hi2, Hi3. subst body.
+    pose proof (NoDup_uniq fs i fd Hnd Hi1) as Hu.
+    pose proof (Forall2_nth_error _ _ _ _ _ _ HF Hi1 Hi2) as Hg.
+    pose proof Hg as [Hid [Hok [Hwf [Hen [Hreq IH]]]]].
+    cbn [map] in *. change (eid (fd, (x, fbody p fd x))) with (fld_id fd) in *. cbn [asc] in Hasc. destruct Hasc as [Hlt Hasc].
+    assert (Hent' : forall e, In e l' -> exists i, nth_error fs i = Some (fst e) /\ nth_error vs0 i = Some (fst (snd e)) /\ snd (snd e) = fbody p (fst e) (fst (snd e))) by (intros e He; apply Hent; right; exact He).
+    rewrite enc_go_cons in *. destruct (fskip fd x) eqn:Es.
+    + rewrite (cur_of_skip _ fs vs0 i fd x Hi1 Hi2 Hu Es).
+      apply IHl; try assumption.
+      * eapply asc_weaken; [|exact Hasc]. lia.
+      * intros fd' Hfd' Er. destruct (Hseen fd' Hfd' Er) as [[Heq|Hin]|Hin]; [|left; exact Hin|right; exact Hin].
+        exfalso. apply In_nth_error in Hfd'. destruct Hfd' as [i' Hi']. pose proof (Hu i' fd' Hi' (eq_sym Heq)). subst i'.
+        rewrite Hi1 in Hi'. inversion Hi'; subst fd'. unfold fskip in Es. rewrite Er, (Hreq Er) in Es. discriminate Es.
+    + cbv zeta in *. unfold fskip in Es. apply orb_false_elim in Es. destruct Es as [Hnil Hz].
+      set (ty := type_of (fld_ty fd)) in *.
+      set (wty := if coalesce p ty && deref_bool x then c_TRUE else ty) in *.
+      set (B := if coalesce p ty then [] else fbody p fd x) in *.
+      rewrite !app_length in HK, Hf. rewrite <- !app_assoc.
+      pose proof (fhdr_length p last (fld_id fd) wty) as Hhl.
+      pose proof (enc_go_len_pos p l' (fld_id fd)) as Hgl.
+      destruct K as [|K']; [lia|].
+      assert (HDfd : (tdepth (fld_ty fd) <= D)%nat) by (apply HD; eapply nth_error_In; eauto).
+      rewrite (sloop_written f p fs flags i fd x _ last Hi1 Hu Hids Hg Hnil ltac:(lia)); [ | | fold ty; fold B; lia | exact Hnf].
+      2:{ apply nth_error_nth. rewrite (cur_of_nth_error _ fs vs0 i fd x Hi1 Hi2). cbn [existsb]. rewrite Z.eqb_refl. reflexivity. }
+      fold ty. fold wty. fold B. rewrite !app_length.
+      destruct (Nat.ltb_spec j (length (fhdr p last (fld_id fd) wty) + length B)).
+      * replace (j <? _)%nat with true by (symmetry; apply Nat.ltb_lt; lia). reflexivity.
+      * pose proof (cur_of_step (fld_id fd) (map eid l') fs vs0 i fd x Hi1 Hi2 eq_refl Hu) as Hstep.
+        replace (existsb (Z.eqb (fld_id fd)) (map eid l')) with false in Hstep.
+        2:{ symmetry. apply existsb_false. intros y Hy. apply Z.eqb_neq. intros Heq. subst y. revert Hy. eapply asc_notin; [exact Hasc | lia]. }
+        replace (fskip fd x) with false in Hstep by (unfold fskip; rewrite Hnil, Hz; reflexivity).
+        cbn [orb] in Hstep. rewrite Hstep.
+        rewrite IHl; try assumption; try lia.
+        -- destruct (Nat.ltb_spec (j - (length (fhdr p last (fld_id fd) wty) + length B)) (length (enc_go p l' (fld_id fd)))).
+           ++ replace (j <? _)%nat with true by (symmetry; apply Nat.ltb_lt; lia).
+              replace (nf + 1 =? 0) with false by lia. replace (j =? 0)%nat with false by (symmetry; apply Nat.eqb_neq; lia).
+              rewrite andb_false_r. reflexivity.
+           ++ replace (j <? _)%nat with false by (symmetry; apply Nat.ltb_ge; lia). do 3 f_equal. lia.
+        -- intros fd' Hfd' Er. destruct (Hseen fd' Hfd' Er) as [[Heq|Hin]|Hin].
+           ++ right. left. rewrite Heq. reflexivity.
+           ++ left. exact Hin.
+           ++ right. right. exact Hin.
+Qed.
+
+(* ====================================================================== *)
+(* ---------- structs ---------- *)
+Lemma struct_good fs : forall vs, ty_ok (ThStruct fs) = true -> tval_wf (ThStruct fs) (TvStruct vs) = true ->
+  Forall (fun f => mainP (fld_ty f)) fs -> NoDup (map fld_id fs) /\ Forall2 fgood fs vs.
+Proof.
+  intros vs Hok Hwf HP. cbn [ty_ok] in Hok. apply andb_true_iff in Hok. destruct Hok as [Hd Hok].
+  split; [apply distinctZ_NoDup; exact Hd|]. clear Hd. cbn [tval_wf] in Hwf.
+  revert vs Hwf. induction fs as [|[id fl ft] fr IH]; intros [|x vr] Hwf; try discriminate Hwf; constructor.
+  - inversion HP as [|? ? HP1 HP2]; subst. cbn [fld_ty] in HP1.
+    apply andb_true_iff in Hok. destruct Hok as [Hok _]. apply andb_true_iff in Hok. destruct Hok as [Hok _].
+    apply andb_true_iff in Hok. destruct Hok as [Hok Hen]. apply andb_true_iff in Hok. destruct Hok as [Hok _].
+    apply andb_true_iff in Hok. destruct Hok as [Hok Hty]. apply andb_true_iff in Hok. destruct Hok as [Hid1 Hid2].
+    apply andb_true_iff in Hwf. destruct Hwf as [Hwf _]. apply andb_true_iff in Hwf. destruct Hwf as [Hwf Hreq].
+    unfold fgood. cbn [fld_id fld_ty fld_flags]. repeat split; try assumption; try lia.
+    + intros He. rewrite He in Hen. cbn [negb orb] in Hen. destruct ft; try discriminate Hen. reflexivity.
+    + intros Hr. rewrite Hr in Hreq. cbn [andb] in Hreq. unfold nilp. destruct (match x with TvPtr None => true | _ => false end); [discriminate Hreq | reflexivity].
+  - inversion HP as [|? ? HP1 HP2]; subst. apply IH; [ | exact HP2 | ].
+    + apply andb_true_iff in Hok. apply Hok.
+    + apply andb_true_iff in Hwf. apply Hwf.
+Qed.
+Lemma Forall2_len {A B} (P : A -> B -> Prop) l1 l2 : Forall2 P l1 l2 -> length l1 = length l2.
+Proof. induction 1; cbn; congruence. Qed.
+Lemma tdepth_struct fs : exists D, tdepth (ThStruct fs) = S D /\ forall fd, In fd fs -> (tdepth (fld_ty fd) <= D)%nat.
+Proof.
+  cbn [tdepth]. eexists. split; [reflexivity|]. induction fs as [|[id fl ft] r IH]; intros fd [].
+  - subst fd. cbn [fld_ty]. lia.
+  - specialize (IH fd H). lia.
+Qed.
+
+Lemma main_struct fs : Forall (fun f => mainP (fld_ty f)) fs -> mainP (ThStruct fs).
+Proof.
+  intros HP p v flags fuel Hok Hwf Hn Hf. destruct v; try discriminate Hwf.
+  destruct (struct_good fs vs Hok Hwf HP) as [Hnd HF].
+  destruct (tdepth_struct fs) as [D [HD1 HD2]]. rewrite HD1 in Hf.
+  destruct fuel as [|f]; [lia|].
+  assert (Hlen : length vs = length fs) by (symmetry; eapply Forall2_len; eauto).
+  assert (Hids : forall fd, In fd fs -> 1 <= fld_id fd) by (intros fd Hfd; destruct (Forall2_in_l _ _ _ _ HF Hfd) as [b [Hb _]]; lia).
+  destruct (sort_by_id_spec (mk_encs p fs vs) 0) as [Hasc Hin].
+  { rewrite mk_encs_ids by exact Hlen. exact Hnd. }
+  { intros e He. destruct (mk_encs_in p fs vs e He) as [i [Hi _]]. unfold eid. apply nth_error_In in Hi. specialize (Hids _ Hi). lia. }
+  intros j rest. rewrite dec_struct_eq, enc_struct_eq in *. rewrite zero_struct_eq, dval_struct_eq.
+  rewrite <- (cur_of_all (map eid (sort_by_id (mk_encs p fs vs))) fs vs Hlen).
+  2:{ intros fd Hfd. apply In_nth_error in Hfd. destruct Hfd as [i Hi].
+      destruct (nth_error vs i) as [x|] eqn:Hx.
+      - apply (in_map eid _ (fd, (x, fbody p fd x))). apply Hin. eapply mk_encs_nth; eauto.
+      - exfalso. apply nth_error_None in Hx. assert (i < length fs)%nat by (apply nth_error_Some; rewrite Hi; discriminate). lia. }
+  rewrite (sloop_spec f p fs vs flags D Hnd HF HD2); try lia; try assumption.
+  - unfold res3. destruct (j <? _)%nat; reflexivity.
+  - intros e He. apply mk_encs_in. apply Hin. exact He.
+  - intros fd Hfd _. left. apply In_nth_error in Hfd. destruct Hfd as [i Hi].
+    destruct (nth_error vs i) as [x|] eqn:Hx.
+    + apply (in_map eid _ (fd, (x, fbody p fd x))). apply Hin. eapply mk_encs_nth; eauto.
+    + exfalso. apply nth_error_None in Hx. assert (i < length fs)%nat by (apply nth_error_Some; rewrite Hi; discriminate). lia.
+Qed.
+
+Theorem main_all : forall t, mainP t.
+Proof.
+  apply tty_ind'.
+  - exact main_bool. - exact main_i8. - exact main_i16. - exact main_i32. - exact main_i64. - exact main_f64.
+  - exact main_str. - exact main_bytes. - exact main_list. - exact main_set. - exact main_map. - exact main_struct. - exact main_ptr.
+Qed.
+
+(* ====================================================================== *)
+(* ---------- normal forms ---------- *)
+Definition tnorm_fields := fix go (fs : list tfield) (vs : list tval) : list tval :=
+  match fs, vs with TField _ _ ft :: fr, x :: vr => tnorm ft x :: go fr vr | _, _ => [] end.
+Lemma tnorm_struct_eq fs vs : tnorm (ThStruct fs) (TvStruct vs) = TvStruct (tnorm_fields fs vs).
+Proof. reflexivity. Qed.
+Lemma tnorm_list_eq et nn es : tnorm (ThList et) (TvList nn es) = TvList true (map (tnorm et) es).
+Proof. reflexivity. Qed.
+Lemma tnorm_map_eq kt vt nn es : tnorm (ThMap kt vt) (TvMap nn es) = TvMap true (map (fun kx => (fst kx, tnorm vt (snd kx))) es).
+Proof.
+  cbn [tnorm]. f_equal. induction es as [|[k x] r IH]; [reflexivity|]. cbn [map fst snd]. rewrite IH. reflexivity.
+Qed.
+Definition is_zero_fields := fix go (fs : list tfield) (vs : list tval) : bool :=
+  match fs, vs with TField _ _ ft :: fr, x :: vr => is_zero_t ft x && go fr vr | _, _ => true end.
+Lemma is_zero_struct_eq fs vs : is_zero_t (ThStruct fs) (TvStruct vs) = is_zero_fields fs vs.
+Proof. reflexivity. Qed.
+Definition wf_fields := fix go (fs : list tfield) (vs : list tval) : bool :=
+  match fs, vs with
+  | [], [] => true
+  | TField _ fl ft :: fr, x :: vr => tval_wf ft x && negb (has_flag fl f_required && (match x with TvPtr None => true | _ => false end)) && go fr vr
+  | _, _ => false
+  end.
+Lemma wf_struct_eq fs vs : tval_wf (ThStruct fs) (TvStruct vs) = wf_fields fs vs.
+Proof. reflexivity. Qed.
+
+Lemma len0 {A} (l : list A) : (len l =? 0) = true -> l = [].
+Proof. destruct l; [reflexivity|]. unfold len. cbn [length]. lia. Qed.
+
+Lemma zero_norm : forall t x, tval_wf t x = true -> is_zero_t t x = true -> tnorm t (zero_of t) = tnorm t x.
+Proof.
+  apply (tty_ind' (fun t => forall x, tval_wf t x = true -> is_zero_t t x = true -> tnorm t (zero_of t) = tnorm t x)).
+  - intros x Hwf Hz. destruct x; try discriminate Hwf. destruct b; [discriminate Hz | reflexivity].
+  - intros x Hwf Hz. destruct x; try discriminate Hwf. cbn in Hz. assert (z = 0) by lia. subst. reflexivity.
+  - intros x Hwf Hz. destruct x; try discriminate Hwf. cbn in Hz. assert (z = 0) by lia. subst. reflexivity.
+  - intros x Hwf Hz. destruct x; try discriminate Hwf. cbn in Hz. assert (z = 0) by lia. subst. reflexivity.
+  - intros x Hwf Hz. destruct x; try discriminate Hwf. cbn in Hz. assert (z = 0) by lia. subst. reflexivity.
+  - intros x Hwf Hz. destruct x; try discriminate Hwf. cbn [is_zero_t is_zero_at] in Hz. apply orb_true_iff in Hz.
+    destruct Hz as [Hz|Hz]; [assert (z = 0) by lia | assert (z = 2 ^ 63) by lia]; subst; reflexivity.
+  - intros x Hwf Hz. destruct x; try discriminate Hwf. cbn [is_zero_t is_zero_at] in Hz. apply len0 in Hz. subst. reflexivity.
+  - intros x Hwf Hz. destruct x; try discriminate Hwf. cbn [is_zero_t is_zero_at is_zero] in Hz. rewrite orb_false_r in Hz.
+    destruct nonnil; [discriminate Hz|]. cbn [tval_wf] in Hwf. apply andb_true_iff in Hwf. destruct Hwf as [_ Hwf]. cbn [orb] in Hwf.
+    apply len0 in Hwf. subst. reflexivity.
+  - intros t _ x Hwf Hz. destruct x; try discriminate Hwf. cbn [is_zero_t is_zero_at is_zero] in Hz.
+    destruct nonnil; [discriminate Hz|]. cbn [tval_wf] in Hwf. apply andb_true_iff in Hwf. destruct Hwf as [Hwf _].
+    apply andb_true_iff in Hwf. destruct Hwf as [_ Hwf]. cbn [orb] in Hwf. apply len0 in Hwf. subst. reflexivity.
+  - intros t _ x Hwf Hz. destruct x; try discriminate Hwf. cbn [is_zero_t is_zero_at is_zero] in Hz.
+    destruct nonnil; [discriminate Hz|]. cbn [tval_wf] in Hwf. apply andb_true_iff in Hwf. destruct Hwf as [Hwf _].
+    apply andb_true_iff in Hwf. destruct Hwf as [_ Hwf]. cbn [orb] in Hwf. apply len0 in Hwf. subst. reflexivity.
+  - intros k v _ _ x Hwf Hz. destruct x; try discriminate Hwf. cbn [is_zero_t is_zero_at is_zero] in Hz.
+    destruct nonnil; [discriminate Hz|]. cbn [tval_wf] in Hwf. apply andb_true_iff in Hwf. destruct Hwf as [Hwf _].
+    apply andb_true_iff in Hwf. destruct Hwf as [_ Hwf]. cbn [orb] in Hwf. apply len0 in Hwf. subst. reflexivity.
+  - intros fs HP x Hwf Hz. destruct x; try discriminate Hwf.
+    rewrite zero_struct_eq, !tnorm_struct_eq. f_equal. rewrite wf_struct_eq in Hwf. rewrite is_zero_struct_eq in Hz.
+    revert vs Hwf Hz. induction fs as [|[id fl ft] fr IH]; intros [|x vr] Hwf Hz; try discriminate Hwf; [reflexivity|].
+    inversion HP as [|? ? HP1 HP2]; subst. cbn [fld_ty] in HP1.
+    cbn [zero_fields tnorm_fields]. cbn [wf_fields] in Hwf. cbn [is_zero_fields] in Hz.
+    apply andb_true_iff in Hwf. destruct Hwf as [Hwf Hwf2]. apply andb_true_iff in Hwf. destruct Hwf as [Hwf1 _].
+    apply andb_true_iff in Hz. destruct Hz as [Hz1 Hz2].
+    f_equal; [apply HP1; assumption | apply IH; assumption].
+  - intros t _ x Hwf Hz. destruct x; try discriminate Hwf. destruct o; [discriminate Hz | reflexivity].
+Qed.
+
+Lemma dval_norm : forall t v, ty_ok t = true -> tval_wf t v = true -> tnorm t (dval t v) = tnorm t v.
+Proof.
+  apply (tty_ind' (fun t => forall v, ty_ok t = true -> tval_wf t v = true -> tnorm t (dval t v) = tnorm t v)).
+  - intros v _ Hwf. destruct v; try discriminate Hwf. reflexivity.
+  - intros v _ Hwf. destruct v; try discriminate Hwf. reflexivity.
+  - intros v _ Hwf. destruct v; try discriminate Hwf. reflexivity.
+  - intros v _ Hwf. destruct v; try discriminate Hwf. reflexivity.
+  - intros v _ Hwf. destruct v; try discriminate Hwf. reflexivity.
+  - intros v _ Hwf. destruct v; try discriminate Hwf. reflexivity.
+  - intros v _ Hwf. destruct v; try discriminate Hwf. reflexivity.
+  - intros v _ Hwf. destruct v; try discriminate Hwf. reflexivity.
+  - intros et IH v Hok Hwf. destruct v; try discriminate Hwf. cbn [ty_ok] in Hok. apply wf_list_inv in Hwf. destruct Hwf as [_ HF].
+    cbn [dval]. rewrite !tnorm_list_eq. f_equal. induction HF as [|x r [Hx _] HF IHr]; [reflexivity|].
+    cbn [map]. rewrite IH by assumption. rewrite IHr. reflexivity.
+  - intros kt _ v _ Hwf. destruct v; try discriminate Hwf. reflexivity.
+  - intros kt vt _ IH v Hok Hwf. destruct v; try discriminate Hwf. cbn [ty_ok] in Hok.
+    apply andb_true_iff in Hok. destruct Hok as [Hok _]. apply andb_true_iff in Hok. destruct Hok as [_ Hokv].
+    apply wf_map_inv in Hwf. destruct Hwf as [_ HD].
+    cbn [dval]. rewrite !tnorm_map_eq. f_equal. induction es as [|[k x] r IHr]; [reflexivity|].
+    cbn [mdist fst snd] in HD. destruct HD as [_ [Hx [_ [_ HD]]]].
+    cbn [map fst snd]. rewrite IH by assumption. rewrite IHr by assumption. reflexivity.
+  - intros fs HP v Hok Hwf. destruct v; try discriminate Hwf.
+    rewrite dval_struct_eq, !tnorm_struct_eq. f_equal.
+    cbn [ty_ok] in Hok. apply andb_true_iff in Hok. destruct Hok as [_ Hok]. rewrite wf_struct_eq in Hwf.
+    revert vs Hwf. induction fs as [|[id fl ft] fr IH]; intros [|x vr] Hwf; try discriminate Hwf; [reflexivity|].
+    inversion HP as [|? ? HP1 HP2]; subst. cbn [fld_ty] in HP1.
+    cbn [cur_of tnorm_fields existsb orb fld_ty]. cbn [wf_fields] in Hwf.
+    apply andb_true_iff in Hwf. destruct Hwf as [Hwf Hwf2]. apply andb_true_iff in Hwf. destruct Hwf as [Hwf1 _].
+    apply andb_true_iff in Hok. destruct Hok as [Hok Hok2].
+    apply andb_true_iff in Hok. destruct Hok as [Hok _]. apply andb_true_iff in Hok. destruct Hok as [Hok _].
+    apply andb_true_iff in Hok. destruct Hok as [Hok _]. apply andb_true_iff in Hok. destruct Hok as [_ Hokt].
+    f_equal; [|apply IH; assumption].
+    destruct (fskip (TField id fl ft) x) eqn:Es; [|apply HP1; assumption].
+    unfold fskip in Es. cbn [fld_flags fld_ty] in Es. apply orb_true_iff in Es. destruct Es as [Es|Es].
+    + destruct x; try discriminate Es. destruct o; [discriminate Es|]. destruct ft; try discriminate Hwf1. reflexivity.
+    + apply andb_true_iff in Es. destruct Es as [_ Es]. apply zero_norm; assumption.
+  - intros t IH v Hok Hwf. destruct v; try discriminate Hwf. cbn [ty_ok] in Hok. apply andb_true_iff in Hok. destruct Hok as [Hok _].
+    destruct o; [|reflexivity]. cbn [dval tnorm]. cbn [tval_wf] in Hwf. rewrite IH by assumption. reflexivity.
+Qed.
+
+(* ---------- the four statements ---------- *)
+Lemma top_spec p fs v fuel : t_universe (ThStruct fs) v -> (length (enc p (ThStruct fs) v) + tdepth (ThStruct fs) <= fuel)%nat ->
+  rspec (dec fuel p (ThStruct fs) 0 (zero_of (ThStruct fs))) (enc p (ThStruct fs) v) (dval (ThStruct fs) v).
+Proof.
+  intros [Hok [Hwf _]] Hf. apply main_all; try assumption. destruct v; try discriminate Hwf. reflexivity.
+Qed.
+
+Lemma unmarshal_marshal p fs v : t_universe (ThStruct fs) v ->
+  TUnmarshal (length (enc p (ThStruct fs) v) + tdepth (ThStruct fs)) p (ThStruct fs) (TMarshal p (ThStruct fs) v) = TOk (dval (ThStruct fs) v).
+Proof.
+  intros HU. pose proof (rspec_full _ _ _ [] (top_spec p fs v _ HU (le_n _))) as H. rewrite app_nil_r in H.
+  unfold TUnmarshal, TMarshal. rewrite H. reflexivity.
+Qed.
+
 Lemma t_roundtrip : t_roundtrip_statement.
-Admitted.
+Proof.
+  intros p fs v HU. eexists. eexists. split; [apply unmarshal_marshal; exact HU|].
+  destruct HU as [Hok [Hwf _]]. apply dval_norm; assumption.
+Qed.
 Lemma t_cross_protocol : t_cross_protocol_statement.
-Admitted.
+Proof.
+  intros fs v HU. do 4 eexists. split; [apply unmarshal_marshal; exact HU|]. split; [apply unmarshal_marshal; exact HU|]. reflexivity.
+Qed.
 Lemma t_prefix_eof : t_prefix_eof_statement.
-Admitted.
+Proof.
+  intros p fs v k fuel HU b Hk Hf. unfold b, TMarshal in *.
+  unfold TUnmarshal. rewrite (rspec_prefix _ _ _ k (top_spec p fs v fuel HU ltac:(lia)) Hk). reflexivity.
+Qed.
 Lemma t_trailing : t_trailing_statement.
-Admitted.
+Proof.
+  intros p fs v x rest fuel HU _ Hf. unfold TMarshal in *.
+  unfold TUnmarshal. rewrite (rspec_full _ _ _ (x :: rest) (top_spec p fs v fuel HU ltac:(lia))). reflexivity.
+Qed.
+
